@@ -1,11 +1,15 @@
-import MJ.Proofs.VmSim
+import MJ.Proofs.SimRel
+import MJ.Proofs.ArgBind
 /-!
-# Expressions compile correctly (C03 stage 3)
+# Expressions compile correctly (C03)
 
 By induction on the fuel of the reference evaluation: the model VM, running the code that the model
-code generator emits for a `simpleExpr`, pushes the value the reference semantics assigns to it —
-including constant folding, short-circuit `and` / `or`, conditional expressions, filters, tests,
-attribute / item access, list and map literals.
+code generator emits for an expression of the fragment (`wfExpr`), pushes the value the reference
+semantics assigns to it — including constant folding, short-circuit `and` / `or`, conditional
+expressions, filters, tests, attribute / item access, list and map literals, chained comparisons and
+**macro calls** with positional and keyword arguments (the call itself is `SimCall`, proved together
+with the statements in `MJ/Proofs/StmtSim.lean`).  Calls may append closures to the state (the
+macros declared while the callee ran): the result state is described up to such an extension.
 -/
 namespace MJ.Vm
 open MJ.Eval MJ.Compile
@@ -17,19 +21,188 @@ theorem evalExpr_succ_of_ok {n ctx heap stack e v} (h : evalExpr n ctx heap stac
   | zero => simp [evalExpr] at h
   | succ m => exact ⟨m, rfl⟩
 
-/-- unary instruction after the code of a sub-expression -/
-theorem sim_unary {n : Nat} (ih : SimExpr n) {x ctx heap stack w} (hx : evalExpr n ctx heap stack x = .ok w)
-    (hsx : simpleExpr x = true) {C base a s} {i : Instr} {v : Val}
-    (hAt : At C base ((relExpr x base a).1 ++ [i])) (hoof : (relExpr x base a).2.oof = false)
-    (hpc : s.pc = base) (henv : EnvRel ctx heap stack s.frames)
-    (hstep : ∀ s1 : VmState, s1.stack = w :: s.stack →
-      MJ.Vm.step ctx i s1 = .ok { s1 with pc := s1.pc + 1, stack := v :: s.stack }) :
-    Reach ctx C s { s with pc := base + ((relExpr x base a).1 ++ [i]).length, stack := v :: s.stack } := by
-  have r1 := ih x ctx heap stack w hx hsx C base a s hAt.left hoof hpc henv
-  refine r1.trans (Reach.one (i := i) ?_ ?_)
-  · simpa using hAt.right.head
-  · rw [hstep _ rfl]; simp [Nat.add_assoc]
+/-- closures only grow by appending -/
+def Ext (cls cls' : List Scope) : Prop := ∃ extra, cls' = cls ++ extra
 
+theorem Ext.refl (cls : List Scope) : Ext cls cls := ⟨[], by simp⟩
+theorem Ext.trans {a b c : List Scope} (h1 : Ext a b) (h2 : Ext b c) : Ext a c := by
+  obtain ⟨e1, rfl⟩ := h1; obtain ⟨e2, rfl⟩ := h2; exact ⟨e1 ++ e2, by simp⟩
+
+/-- the names of `A` are bound in the cells of the current context -/
+def ABound (heap : Heap) (loc : List Nat) (A : List String) : Prop := ∀ x ∈ A, BoundIn heap loc x
+
+/-- what an expression is evaluated under: configuration, ghost map, what may be read, the cells -/
+structure ECtx where
+  K : Cfg
+  G : Ghost
+  P : Option (List String)
+  clo : Option Nat
+  heap : Heap
+  loc : List Nat
+  env : List Nat
+  A : List String
+
+def ECtx.ok (E : ECtx) (s : VmState) : Prop :=
+  HRel E.K E.G E.P E.clo E.heap E.loc E.env s ∧ ABound E.heap E.loc E.A ∧ E.loc ≠ []
+
+theorem ECtx.ok.next {E : ECtx} {s : VmState} (h : E.ok s) {cls' : List Scope} (hx : Ext s.closures cls') (pc : Nat)
+    (st : List Val) : E.ok { s with pc := pc, stack := st, closures := cls' } := by
+  obtain ⟨extra, rfl⟩ := hx
+  exact ⟨h.1.ext _ rfl extra rfl, h.2.1, h.2.2⟩
+
+/-- the VM gets from `s` to program counter `pc'` with operand stack `st'`; the closures may have
+been extended by the macro calls on the way -/
+def Pushed (E : ECtx) (s : VmState) (pc' : Nat) (st' : List Val) : Prop :=
+  ∃ cls', Ext s.closures cls' ∧ Reach E.K.ctx E.K.C s { s with pc := pc', stack := st', closures := cls' }
+
+theorem Pushed.refl (E : ECtx) (s : VmState) : Pushed E s s.pc s.stack := ⟨s.closures, Ext.refl _, Reach.refl s⟩
+
+theorem Pushed.cast {E s p st p' st'} (h : Pushed E s p st) (hp : p = p') (hs : st = st') : Pushed E s p' st' := by
+  subst hp; subst hs; exact h
+
+theorem Pushed.trans {E : ECtx} {s : VmState} {p1 p2 : Nat} {st1 st2 : List Val} (h1 : Pushed E s p1 st1)
+    (h2 : ∀ cls1, Ext s.closures cls1 → Pushed E { s with pc := p1, stack := st1, closures := cls1 } p2 st2) :
+    Pushed E s p2 st2 := by
+  obtain ⟨c1, x1, r1⟩ := h1
+  obtain ⟨c2, x2, r2⟩ := h2 c1 x1
+  exact ⟨c2, x1.trans x2, r1.trans r2⟩
+
+/-- one more instruction that does not touch frames or closures -/
+theorem Pushed.step {E : ECtx} {s : VmState} {p1 p2 : Nat} {st1 st2 : List Val} {i : Instr} (h1 : Pushed E s p1 st1)
+    (hi : E.K.C[p1]? = some i)
+    (hs : ∀ cls1, MJ.Vm.step E.K.ctx i { s with pc := p1, stack := st1, closures := cls1 } =
+      .ok { s with pc := p2, stack := st2, closures := cls1 }) : Pushed E s p2 st2 := by
+  obtain ⟨c1, x1, r1⟩ := h1
+  exact ⟨c1, x1, r1.trans (Reach.one (i := i) hi (hs c1))⟩
+
+/-- a first instruction that does not touch frames or closures -/
+theorem Pushed.first {E : ECtx} {s : VmState} {p2 : Nat} {st2 : List Val} {i : Instr}
+    (hi : E.K.C[s.pc]? = some i)
+    (hs : MJ.Vm.step E.K.ctx i s = .ok { s with pc := p2, stack := st2 }) : Pushed E s p2 st2 :=
+  ⟨s.closures, Ext.refl _, Reach.one (i := i) hi hs⟩
+
+theorem popN_append (xs rest : List Val) : popN xs.length (xs.reverse ++ rest) = some (xs, rest) := by
+  simp [popN]
+
+theorem Reach.cast {ctx C s s' t t'} (h : Reach ctx C s t) (hs : s = s') (ht : t = t') : Reach ctx C s' t' := by
+  subst hs; subst ht; exact h
+
+theorem Reach.one' {ctx C s s' i} (k : Nat) (hk : C[k]? = some i) (hpc : s.pc = k)
+    (hs : MJ.Vm.step ctx i s = .ok s') : Reach ctx C s s' := by
+  subst hpc; exact Reach.one hk hs
+
+def flat : List (Val × Val) → List Val
+  | [] => []
+  | (k, v) :: rest => k :: v :: flat rest
+
+/-- close equalities between VM states / list lengths that differ only by arithmetic normal form -/
+macro "vmeq" : tactic =>
+  `(tactic| first
+    | rfl
+    | (simp [Nat.add_assoc, flat]; done)
+    | (simp [Nat.add_assoc, flat]; omega)
+    | omega)
+
+
+/-- what the render context and the cells must satisfy for macro calls: the closure invariant of `HRel` -/
+def GInv (K : Cfg) (G : Ghost) (heap : Heap) (cls : List Scope) : Prop :=
+  (∀ c env', G c = some env' → ∃ m, cls[c]? = some m ∧
+    ∀ x u, assocGet x m = some u → ValAgree K G cls heap.length x ((MJ.Eval.lookup K.ctx heap env' x).getD .undef) u) ∧
+  (∀ c env', G c = some env' → ∀ id ∈ env', id < heap.length)
+
+theorem HRel.ginv {K G P clo heap loc env s} (h : HRel K G P clo heap loc env s) : GInv K G heap s.closures :=
+  ⟨h.closOK, h.genv⟩
+
+/-- executing the code of `e` from `s` pushes the value of `e` -/
+def SimExpr (n : Nat) : Prop :=
+  ∀ (E : ECtx) e v, evalExpr n E.K.ctx E.heap (E.loc ++ E.env) e = .ok v → wfExpr E.K.M E.P E.A e = true →
+    ∀ base a s, At E.K.C base (relExpr e base a).1 → (relExpr e base a).2.oof = false → s.pc = base → E.ok s →
+      Pushed E s (base + (relExpr e base a).1.length) (v :: s.stack)
+
+/-- the keyword arguments `kw` of the reference semantics as the VM passes them: one value `m` -/
+def KwBundle (kw m : List (String × Val)) : Prop := ∀ k, assocGet k m = assocGet k kw
+
+/-- the values a `CallFunction` pops, for the evaluated arguments `as` -/
+def ArgsOf (as : List (Option String × Val)) (args : List Val) : Prop :=
+  ((splitArgs as).2 = [] ∧ args = (splitArgs as).1) ∨
+  ((splitArgs as).2 ≠ [] ∧ ∃ m, KwBundle (splitArgs as).2 m ∧ args = (splitArgs as).1 ++ [.kwargs m])
+
+/-- keyword arguments in general: data is equal on both sides and plain; the hidden `caller` of a call
+block is a macro on both sides -/
+def KwRel (K : Cfg) (G : Ghost) (cls : List Scope) (hl : Nat) (kw m : List (String × Val)) : Prop :=
+  (∀ k, k ≠ "caller" → assocGet k m = assocGet k kw ∧ ∀ v, assocGet k kw = some v → MJ.Eval.plain v = true) ∧
+  ((assocGet "caller" kw = none ∧ assocGet "caller" m = none) ∨
+   (∃ w u, assocGet "caller" kw = some w ∧ assocGet "caller" m = some u ∧ MacroRel K G cls hl u w))
+
+/-- the values a `CallFunction` pops, for the evaluated arguments `as` (positional values are plain data) -/
+def ArgsRel (K : Cfg) (G : Ghost) (cls : List Scope) (hl : Nat) (as : List (Option String × Val)) (args : List Val) : Prop :=
+  (∀ v, v ∈ (splitArgs as).1 → MJ.Eval.plain v = true) ∧
+  (((splitArgs as).2 = [] ∧ args = (splitArgs as).1) ∨
+   ((splitArgs as).2 ≠ [] ∧ ∃ m, KwRel K G cls hl (splitArgs as).2 m ∧ args = (splitArgs as).1 ++ [.kwargs m]))
+
+theorem mem_splitArgs_kw {as : List (Option String × Val)} {k : String} {v : Val} (h : (k, v) ∈ (splitArgs as).2) :
+    v ∈ as.map (·.2) := by
+  simp only [splitArgs, List.mem_filterMap] at h
+  obtain ⟨a, ha, hm⟩ := h
+  obtain ⟨k', v'⟩ := a
+  cases k' with
+  | none => simp at hm
+  | some k'' => simp at hm; obtain ⟨_, rfl⟩ := hm; exact List.mem_map.2 ⟨_, ha, rfl⟩
+
+theorem assocGet_none_of_not_mem {α : Type} {k : String} : ∀ {l : List (String × α)}, k ∉ l.map (·.1) → assocGet k l = none
+  | [], _ => rfl
+  | (k', v) :: rest, h => by
+    simp only [List.map_cons, List.mem_cons, not_or] at h
+    simp only [assocGet]
+    rw [if_neg (fun e => h.1 e.symm)]
+    exact assocGet_none_of_not_mem h.2
+
+/-- ordinary calls: all arguments are data, there is no `caller` keyword -/
+theorem ArgsRel.of_data {K : Cfg} {G : Ghost} {cls : List Scope} {hl : Nat} {as : List (Option String × Val)} {args : List Val}
+    (hpl : ∀ v, v ∈ as.map (·.2) → MJ.Eval.plain v = true) (hnc : "caller" ∉ (splitArgs as).2.map (·.1))
+    (h : ArgsOf as args) : ArgsRel K G cls hl as args := by
+  refine ⟨fun v hv => hpl v (mem_splitArgs_pos hv), ?_⟩
+  rcases h with h | ⟨hne, m, hb, hargs⟩
+  · exact Or.inl h
+  · refine Or.inr ⟨hne, m, ⟨fun k _ => ⟨hb k, fun v hv => hpl v (mem_splitArgs_kw (assocGet_mem' hv))⟩, Or.inl ?_⟩, hargs⟩
+    have := assocGet_none_of_not_mem hnc
+    exact ⟨this, by rw [hb "caller"]; exact this⟩
+
+/-- a macro call: the VM binds the arguments like the reference semantics, runs the macro's code in
+a fresh context up to its `Return`, and the captured output is the value of the call -/
+def SimCall (n : Nat) : Prop :=
+  ∀ (K : Cfg) (G : Ghost) (heap : Heap) (cls : List Scope) (w u : Val) (as : List (Option String × Val))
+    (args : List Val) (v : Val),
+    callValue n K.ctx heap w as = .ok v → MacroRel K G cls heap.length u w → ArgsRel K G cls heap.length as args →
+    GInv K G heap cls → PlainSt K.M K.ctx heap →
+    ∃ nm spec off clo cref vals caller s1, u = .vmMacro nm spec off clo cref ∧
+      prepareArgs spec cref args = .ok (vals, caller) ∧
+      Reach K.ctx K.C (calleeState off clo caller vals cls) s1 ∧ K.C[s1.pc]? = some .return_ ∧
+      v = .str (s1.outs.getLast?.getD "") ∧ Ext cls s1.closures
+
+theorem sim_folded {n e v w} {E : ECtx} (hc : asConst e = .val w)
+    (hev : evalExpr n E.K.ctx E.heap (E.loc ++ E.env) e = .ok v) {base a s}
+    (hAt : At E.K.C base (relExpr e base a).1) (hpc : s.pc = base) :
+    Pushed E s (base + (relExpr e base a).1.length) (v :: s.stack) := by
+  rw [relExpr_val hc] at hAt ⊢
+  have hv : v = w := by
+    rcases asConst_sound hc n E.K.ctx E.heap (E.loc ++ E.env) with h | h <;> rw [h] at hev <;> simp at hev
+    exact hev.symm
+  subst hv
+  refine Pushed.first (i := .loadConst v) (by rw [hpc]; exact hAt.head) ?_
+  simp [MJ.Vm.step, hpc]
+
+/-- unary instruction after the code of a sub-expression -/
+theorem sim_unary {n : Nat} (ih : SimExpr n) {E : ECtx} {x w} (hx : evalExpr n E.K.ctx E.heap (E.loc ++ E.env) x = .ok w)
+    (hsx : wfExpr E.K.M E.P E.A x = true) {base a s} {i : Instr} {v : Val}
+    (hAt : At E.K.C base ((relExpr x base a).1 ++ [i])) (hoof : (relExpr x base a).2.oof = false)
+    (hpc : s.pc = base) (hok : E.ok s)
+    (hstep : ∀ s1 : VmState, s1.stack = w :: s.stack →
+      MJ.Vm.step E.K.ctx i s1 = .ok { s1 with pc := s1.pc + 1, stack := v :: s.stack }) :
+    Pushed E s (base + ((relExpr x base a).1 ++ [i]).length) (v :: s.stack) := by
+  have r1 := ih E x w hx hsx base a s hAt.left hoof hpc hok
+  refine r1.step (i := i) (by simpa using hAt.right.head) (fun cls1 => ?_)
+  rw [hstep _ rfl]; simp [Nat.add_assoc]
 
 /-- the value of a strict binary operator -/
 def binVal (op : BinOp) (a b : Val) : Res Val :=
@@ -59,36 +232,27 @@ theorem step_binInstr {ctx op a b rest v} {s : VmState} (h1 : op ≠ .and) (h2 :
     | (cases hc : contains b a <;> simp [hc, Except.map] at hv ⊢ <;> simp [hv]; done)
     | (subst hv; rfl)
 
-
 def SimList (n : Nat) : Prop :=
-  ∀ es ctx heap stack vs, evalList n ctx heap stack es = .ok vs → simpleList es = true →
-    ∀ C base a s, At C base (relList es base a).1 → (relList es base a).2.oof = false → s.pc = base →
-      EnvRel ctx heap stack s.frames →
-      Reach ctx C s { s with pc := base + (relList es base a).1.length, stack := vs.reverse ++ s.stack }
+  ∀ (E : ECtx) es vs, evalList n E.K.ctx E.heap (E.loc ++ E.env) es = .ok vs → wfList E.K.M E.P E.A es = true →
+    ∀ base a s, At E.K.C base (relList es base a).1 → (relList es base a).2.oof = false → s.pc = base → E.ok s →
+      Pushed E s (base + (relList es base a).1.length) (vs.reverse ++ s.stack)
 
 def SimArgs (n : Nat) : Prop :=
-  ∀ args ctx heap stack as, evalArgs n ctx heap stack args = .ok as → simpleArgs args = true →
-    ∀ C base a s, At C base (relArgs args base a).1 → (relArgs args base a).2.oof = false → s.pc = base →
-      EnvRel ctx heap stack s.frames →
-      Reach ctx C s { s with pc := base + (relArgs args base a).1.length,
-                             stack := (as.map (·.2)).reverse ++ s.stack }
-
-def flat : List (Val × Val) → List Val
-  | [] => []
-  | (k, v) :: rest => k :: v :: flat rest
+  ∀ (E : ECtx) args as, evalArgs n E.K.ctx E.heap (E.loc ++ E.env) args = .ok as → wfArgs E.K.M E.P E.A args = true →
+    ∀ base a s, At E.K.C base (relArgs args base a).1 → (relArgs args base a).2.oof = false → s.pc = base → E.ok s →
+      Pushed E s (base + (relArgs args base a).1.length) ((as.map (·.2)).reverse ++ s.stack)
 
 def SimPairs (n : Nat) : Prop :=
-  ∀ kvs ctx heap stack ps, evalPairs n ctx heap stack kvs = .ok ps → simplePairs kvs = true →
-    ∀ C base a s, At C base (relPairs kvs base a).1 → (relPairs kvs base a).2.oof = false → s.pc = base →
-      EnvRel ctx heap stack s.frames →
-      Reach ctx C s { s with pc := base + (relPairs kvs base a).1.length, stack := (flat ps).reverse ++ s.stack }
+  ∀ (E : ECtx) kvs ps, evalPairs n E.K.ctx E.heap (E.loc ++ E.env) kvs = .ok ps → wfPairs E.K.M E.P E.A kvs = true →
+    ∀ base a s, At E.K.C base (relPairs kvs base a).1 → (relPairs kvs base a).2.oof = false → s.pc = base → E.ok s →
+      Pushed E s (base + (relPairs kvs base a).1.length) ((flat ps).reverse ++ s.stack)
 
 theorem sim_list_step {n} (ihE : SimExpr n) (ihL : SimList n) : SimList (n + 1) := by
-  intro es ctx heap stack vs hev hs C base a s hAt hoof hpc henv
+  intro E es vs hev hs base a s hAt hoof hpc hok
   cases es with
   | nil =>
     simp [evalList] at hev; subst hev
-    simp [relList]; rw [← hpc]; exact Reach.refl _
+    simp [relList]; rw [← hpc]; exact Pushed.refl E s
   | cons e rest =>
     simp only [evalList, bind, Except.bind] at hev
     split at hev
@@ -98,18 +262,18 @@ theorem sim_list_step {n} (ihE : SimExpr n) (ihL : SimList n) : SimList (n + 1) 
       · simp at hev
       · rename_i ws hws
         simp at hev; subst hev
-        have hs' : simpleExpr e = true ∧ simpleList rest = true := by simpa [simpleList] using hs
+        have hs' : wfExpr E.K.M E.P E.A e = true ∧ wfList E.K.M E.P E.A rest = true := by simpa [wfList] using hs
         simp only [relList] at hAt hoof ⊢
         have ho1 : (relExpr e base a).2.oof = false := by
           cases h : (relExpr e base a).2.oof with
           | false => rfl
           | true => rw [relList_oof_mono rest _ _ h] at hoof; cases hoof
-        have r1 := ihE e ctx heap stack v hv hs'.1 C base a s hAt.left ho1 hpc henv
-        have r2 := ihL rest ctx heap stack ws hws hs'.2 C (base + (relExpr e base a).1.length) (relExpr e base a).2
-          { s with pc := base + (relExpr e base a).1.length, stack := v :: s.stack } hAt.right hoof rfl henv
-        refine r1.trans ?_
-        simpa [Nat.add_assoc] using r2
-
+        have r1 := ihE E e v hv hs'.1 base a s hAt.left ho1 hpc hok
+        refine r1.trans (fun c1 x1 => ?_)
+        have r2 := ihL E rest ws hws hs'.2 (base + (relExpr e base a).1.length) (relExpr e base a).2
+          { s with pc := base + (relExpr e base a).1.length, stack := v :: s.stack, closures := c1 } hAt.right hoof rfl
+          (hok.next x1 _ _)
+        exact r2.cast (by vmeq) (by vmeq)
 
 theorem oof_false_of_relArgs {args b a} (h : (relArgs args b a).2.oof = false) : a.oof = false := by
   cases ha : a.oof with
@@ -127,15 +291,15 @@ theorem oof_false_of_relList {es b a} (h : (relList es b a).2.oof = false) : a.o
   | true => rw [relList_oof_mono es b a ha] at h; cases h
 
 theorem sim_args_step {n} (ihE : SimExpr n) (ihA : SimArgs n) : SimArgs (n + 1) := by
-  intro args ctx heap stack as hev hs C base a s hAt hoof hpc henv
+  intro E args as hev hs base a s hAt hoof hpc hok
   cases args with
   | nil =>
     simp [evalArgs] at hev; subst hev
-    simp [relArgs]; rw [← hpc]; exact Reach.refl _
+    simp [relArgs]; rw [← hpc]; exact Pushed.refl E s
   | cons arg rest =>
     obtain ⟨k, e⟩ := arg
     cases k with
-    | some k => simp [simpleArgs] at hs
+    | some k => simp [wfArgs] at hs
     | none =>
       simp only [evalArgs, bind, Except.bind] at hev
       split at hev
@@ -145,21 +309,22 @@ theorem sim_args_step {n} (ihE : SimExpr n) (ihA : SimArgs n) : SimArgs (n + 1) 
         · simp at hev
         · rename_i ws hws
           simp at hev; subst hev
-          have hs' : simpleExpr e = true ∧ simpleArgs rest = true := by simpa [simpleArgs] using hs
+          have hs' : wfExpr E.K.M E.P E.A e = true ∧ wfArgs E.K.M E.P E.A rest = true := by simpa [wfArgs] using hs
           simp only [relArgs] at hAt hoof ⊢
           have ho1 := oof_false_of_relArgs hoof
-          have r1 := ihE e ctx heap stack v hv hs'.1 C base a s hAt.left ho1 hpc henv
-          have r2 := ihA rest ctx heap stack ws hws hs'.2 C (base + (relExpr e base a).1.length) (relExpr e base a).2
-            { s with pc := base + (relExpr e base a).1.length, stack := v :: s.stack } hAt.right hoof rfl henv
-          refine r1.trans ?_
-          simpa [Nat.add_assoc] using r2
+          have r1 := ihE E e v hv hs'.1 base a s hAt.left ho1 hpc hok
+          refine r1.trans (fun c1 x1 => ?_)
+          have r2 := ihA E rest ws hws hs'.2 (base + (relExpr e base a).1.length) (relExpr e base a).2
+            { s with pc := base + (relExpr e base a).1.length, stack := v :: s.stack, closures := c1 } hAt.right hoof rfl
+            (hok.next x1 _ _)
+          exact r2.cast (by vmeq) (by vmeq)
 
 theorem sim_pairs_step {n} (ihE : SimExpr n) (ihP : SimPairs n) : SimPairs (n + 1) := by
-  intro kvs ctx heap stack ps hev hs C base a s hAt hoof hpc henv
+  intro E kvs ps hev hs base a s hAt hoof hpc hok
   cases kvs with
   | nil =>
     simp [evalPairs] at hev; subst hev
-    simp [relPairs, flat]; rw [← hpc]; exact Reach.refl _
+    simp [relPairs, flat]; rw [← hpc]; exact Pushed.refl E s
   | cons kv rest =>
     obtain ⟨k, e⟩ := kv
     simp only [evalPairs, bind, Except.bind] at hev
@@ -173,23 +338,25 @@ theorem sim_pairs_step {n} (ihE : SimExpr n) (ihP : SimPairs n) : SimPairs (n + 
         · simp at hev
         · rename_i ws hws
           simp at hev; subst hev
-          have hs' : (simpleExpr k = true ∧ simpleExpr e = true) ∧ simplePairs rest = true := by
-            simpa [simplePairs] using hs
+          have hs' : (wfExpr E.K.M E.P E.A k = true ∧ wfExpr E.K.M E.P E.A e = true) ∧ wfPairs E.K.M E.P E.A rest = true := by
+            simpa [wfPairs] using hs
           simp only [relPairs] at hAt hoof ⊢
           have ho2 := oof_false_of_relPairs hoof
           have ho1 := oof_false_of_relExpr ho2
-          have r1 := ihE k ctx heap stack kv hkv hs'.1.1 C base a s hAt.left.left ho1 hpc henv
-          have r2 := ihE e ctx heap stack v hv hs'.1.2 C (base + (relExpr k base a).1.length) (relExpr k base a).2
-            { s with pc := base + (relExpr k base a).1.length, stack := kv :: s.stack } hAt.left.right ho2 rfl henv
-          have r3 := ihP rest ctx heap stack ws hws hs'.2 C
+          have r1 := ihE E k kv hkv hs'.1.1 base a s hAt.left.left ho1 hpc hok
+          refine r1.trans (fun c1 x1 => ?_)
+          have r2 := ihE E e v hv hs'.1.2 (base + (relExpr k base a).1.length) (relExpr k base a).2
+            { s with pc := base + (relExpr k base a).1.length, stack := kv :: s.stack, closures := c1 } hAt.left.right ho2 rfl
+            (hok.next x1 _ _)
+          refine r2.trans (fun c2 x2 => ?_)
+          have r3 := ihP E rest ws hws hs'.2
             (base + (relExpr k base a).1.length + (relExpr e (base + (relExpr k base a).1.length) (relExpr k base a).2).1.length)
             (relExpr e (base + (relExpr k base a).1.length) (relExpr k base a).2).2
             { s with pc := base + (relExpr k base a).1.length + (relExpr e (base + (relExpr k base a).1.length) (relExpr k base a).2).1.length,
-                     stack := v :: kv :: s.stack }
-            (At.cast hAt.right (by simp [Nat.add_assoc]; try omega)) hoof rfl henv
-          refine r1.trans (r2.trans ?_)
-          simpa [Nat.add_assoc, flat] using r3
-
+                     stack := v :: kv :: s.stack, closures := c2 }
+            (At.cast hAt.right (by simp [Nat.add_assoc]; try omega)) hoof rfl
+            ((hok.next x1 (base + (relExpr k base a).1.length) (kv :: s.stack)).next x2 _ _)
+          exact r3.cast (by vmeq) (by vmeq)
 
 theorem splitArgs_none (as : List (Option String × Val)) (h : ∀ p ∈ as, p.1 = none) :
     (splitArgs as).1 = as.map (·.2) ∧ (splitArgs as).2 = [] := by
@@ -203,8 +370,8 @@ theorem splitArgs_none (as : List (Option String × Val)) (h : ∀ p ∈ as, p.1
     simp [splitArgs] at this ⊢
     exact this
 
-theorem evalArgs_keys {n ctx heap stack} : ∀ (args : List (Option String × Expr)) (as),
-    evalArgs n ctx heap stack args = .ok as → simpleArgs args = true → ∀ p ∈ as, p.1 = none := by
+theorem evalArgs_keys {n ctx heap stack} {M P A} : ∀ (args : List (Option String × Expr)) (as),
+    evalArgs n ctx heap stack args = .ok as → wfArgs M P A args = true → ∀ p ∈ as, p.1 = none := by
   induction n with
   | zero => intro args as h; simp [evalArgs] at h
   | succ m ih =>
@@ -214,7 +381,7 @@ theorem evalArgs_keys {n ctx heap stack} : ∀ (args : List (Option String × Ex
     | cons arg rest =>
       obtain ⟨k, e⟩ := arg
       cases k with
-      | some k => simp [simpleArgs] at hs
+      | some k => simp [wfArgs] at hs
       | none =>
         simp only [evalArgs, bind, Except.bind] at h
         split at h
@@ -223,7 +390,7 @@ theorem evalArgs_keys {n ctx heap stack} : ∀ (args : List (Option String × Ex
           · simp at h
           · rename_i ws hws
             simp at h; subst h
-            have hs' : simpleExpr e = true ∧ simpleArgs rest = true := by simpa [simpleArgs] using hs
+            have hs' : wfExpr M P A e = true ∧ wfArgs M P A rest = true := by simpa [wfArgs] using hs
             intro p hp
             simp at hp
             rcases hp with rfl | hp
@@ -247,25 +414,6 @@ theorem evalArgs_length {n ctx heap stack} : ∀ (args : List (Option String × 
         · simp at h
         · rename_i ws hws
           simp at h; subst h; simp [ih rest ws hws]
-
-theorem popN_append (xs rest : List Val) : popN xs.length (xs.reverse ++ rest) = some (xs, rest) := by
-  simp [popN]
-
-
-theorem Reach.cast {ctx C s s' t t'} (h : Reach ctx C s t) (hs : s = s') (ht : t = t') : Reach ctx C s' t' := by
-  subst hs; subst ht; exact h
-
-theorem Reach.one' {ctx C s s' i} (k : Nat) (hk : C[k]? = some i) (hpc : s.pc = k)
-    (hs : MJ.Vm.step ctx i s = .ok s') : Reach ctx C s s' := by
-  subst hpc; exact Reach.one hk hs
-
-/-- close equalities between VM states / list lengths that differ only by arithmetic normal form -/
-macro "vmeq" : tactic =>
-  `(tactic| first
-    | rfl
-    | (simp [Nat.add_assoc, flat]; done)
-    | (simp [Nat.add_assoc, flat]; omega)
-    | omega)
 
 theorem evalList_length {n ctx heap stack} : ∀ (es : List Expr) (vs), evalList n ctx heap stack es = .ok vs →
     vs.length = es.length := by
@@ -314,11 +462,12 @@ theorem pairUp_flat (ps : List (Val × Val)) : pairUp (flat ps) = some ps := by
   | nil => rfl
   | cons p rest ih => obtain ⟨k, v⟩ := p; simp [flat, pairUp, ih]
 
+
 /-- the final comparison of a chain (and any single comparison operator) -/
-theorem step_cmpInstrs {ctx C op a b r} {s : VmState} {st : List Val} {base : Nat}
-    (hAt : At C base (cmpInstrs op)) (hpc : s.pc = base) (hs : s.stack = b :: a :: st)
+theorem step_cmpInstrs {E : ECtx} {op a b r} {s : VmState} {st : List Val} {base : Nat}
+    (hAt : At E.K.C base (cmpInstrs op)) (hpc : s.pc = base) (hs : s.stack = b :: a :: st)
     (hr : compareOp op a b = .ok r) :
-    Reach ctx C s { s with pc := base + (cmpInstrs op).length, stack := .bool r :: st } := by
+    Pushed E s (base + (cmpInstrs op).length) (.bool r :: st) := by
   cases op
   case notin =>
     simp only [cmpInstrs] at hAt ⊢
@@ -329,24 +478,23 @@ theorem step_cmpInstrs {ctx C op a b r} {s : VmState} {st : List Val} {base : Na
       have hrc : r = !c := by
         rw [hc] at hr; simp only [Except.map, Except.ok.injEq] at hr; rw [← hr]
       subst hrc
-      refine Reach.cons (i := .isIn) (by rw [hpc]; exact hAt.head)
-        (s' := { s with pc := base + 1, stack := .bool c :: st }) (by simp [MJ.Vm.step, hs, hc, Except.map, hpc]) ?_
-      exact Reach.one' (i := .not) _ hAt.tail.head rfl (by simp [MJ.Vm.step, truthy])
+      have p1 : Pushed E s (base + 1) (.bool c :: st) :=
+        Pushed.first (i := .isIn) (by rw [hpc]; exact hAt.head) (by simp [MJ.Vm.step, hs, hc, Except.map, hpc])
+      exact p1.step (i := .not) hAt.tail.head (fun cls1 => by simp [MJ.Vm.step, truthy])
   all_goals
     simp only [cmpInstrs] at hAt ⊢
-    refine Reach.one (by rw [hpc]; exact hAt.head) ?_
+    refine Pushed.first (by rw [hpc]; exact hAt.head) ?_
     first
     | (simp [MJ.Vm.step, binCmp, hs, hr, Except.map, hpc]; done)
     | (simp only [compareOp] at hr; simp [MJ.Vm.step, hs, hr, Except.map, hpc])
 
 def SimChain (n : Nat) : Prop :=
-  ∀ ops ctx heap stack a v, evalChain n ctx heap stack a ops = .ok v → simpleChain ops = true → ops ≠ [] →
-    ∀ C base aux cs (s : VmState) (st : List Val), At C base (relChain ops base aux cs).1 →
+  ∀ (E : ECtx) ops a v, evalChain n E.K.ctx E.heap (E.loc ++ E.env) a ops = .ok v → wfChain E.K.M E.P E.A ops = true → ops ≠ [] →
+    ∀ base aux cs (s : VmState) (st : List Val), At E.K.C base (relChain ops base aux cs).1 →
       (relChain ops base aux cs).2.oof = false →
-      C[base + (relChain ops base aux cs).1.length]? = some (.jump (cs + 2)) →
-      At C cs [Instr.swap, Instr.discardTop] → s.pc = base → s.stack = a :: st →
-      EnvRel ctx heap stack s.frames →
-      Reach ctx C s { s with pc := cs + 2, stack := v :: st }
+      E.K.C[base + (relChain ops base aux cs).1.length]? = some (.jump (cs + 2)) →
+      At E.K.C cs [Instr.swap, Instr.discardTop] → s.pc = base → s.stack = a :: st → E.ok s →
+      Pushed E s (cs + 2) (v :: st)
 
 theorem oof_false_of_relChain {ops b a cs} (h : (relChain ops b a cs).2.oof = false) : a.oof = false := by
   cases ha : a.oof with
@@ -354,10 +502,10 @@ theorem oof_false_of_relChain {ops b a cs} (h : (relChain ops b a cs).2.oof = fa
   | true => rw [relChain_oof_mono ops b a cs ha] at h; cases h
 
 theorem sim_chain_step {n} (ihE : SimExpr n) (ihC : SimChain n) : SimChain (n + 1) := by
-  intro ops ctx heap stack a v hev hs hne C base aux cs s st hAt hoof hJ hCl hpc hst henv
+  intro E ops a v hev hs hne base aux cs s st hAt hoof hJ hCl hpc hst hok
   match ops, hne with
   | [(op, e)], _ =>
-    have hse : simpleExpr e = true := by simpa [simpleChain] using hs
+    have hse : wfExpr E.K.M E.P E.A e = true := by simpa [wfChain] using hs
     simp only [evalChain, bind, Except.bind] at hev
     split at hev
     · simp at hev
@@ -375,12 +523,14 @@ theorem sim_chain_step {n} (ihE : SimExpr n) (ihC : SimChain n) : SimChain (n + 
             | zero => simp [evalChain] at hev
             | succ m => simp [evalChain] at hev; exact hev.symm
         subst hv
-        have r1 := ihE e ctx heap stack b hb hse C base aux s hAt.left hoof hpc henv
-        have r2 := step_cmpInstrs (ctx := ctx) (s := { s with pc := base + (relExpr e base aux).1.length, stack := b :: s.stack })
+        have r1 := ihE E e b hb hse base aux s hAt.left hoof hpc hok
+        refine r1.trans (fun c1 x1 => ?_)
+        have r2 := step_cmpInstrs (E := E)
+          (s := { s with pc := base + (relExpr e base aux).1.length, stack := b :: s.stack, closures := c1 })
           (st := st) hAt.right rfl (by simp [hst]) hr
-        refine r1.trans (r2.trans (Reach.one' (i := .jump (cs + 2)) _ hJ (by simp [Nat.add_assoc]) (by simp [MJ.Vm.step])))
+        refine (r2.step (i := .jump (cs + 2)) (by rw [← hJ]; congr 1; simp [Nat.add_assoc]) (fun cls1 => by simp [MJ.Vm.step])).cast rfl rfl
   | (op, e) :: o2 :: rest, _ =>
-    have hs' : simpleExpr e = true ∧ simpleChain (o2 :: rest) = true := by simpa [simpleChain] using hs
+    have hs' : wfExpr E.K.M E.P E.A e = true ∧ wfChain E.K.M E.P E.A (o2 :: rest) = true := by simpa [wfChain] using hs
     simp only [evalChain, bind, Except.bind] at hev
     split at hev
     · simp at hev
@@ -390,42 +540,354 @@ theorem sim_chain_step {n} (ihE : SimExpr n) (ihC : SimChain n) : SimChain (n + 
       · rename_i r hr
         simp only [relChain] at hAt hoof hJ
         have ho1 := oof_false_of_relChain hoof
-        have r1 := ihE e ctx heap stack b hb hs'.1 C base aux s hAt.left.left ho1 hpc henv
+        have r1 := ihE E e b hb hs'.1 base aux s hAt.left.left ho1 hpc hok
         have hcap := hAt.left.right.head
         have hjf := hAt.left.right.tail.head
+        refine r1.trans (fun c1 x1 => ?_)
         -- CompareAndPreserve
-        have r2 : Reach ctx C { s with pc := base + (relExpr e base aux).1.length, stack := b :: s.stack }
-            { s with pc := base + (relExpr e base aux).1.length + 1, stack := .bool r :: b :: st } :=
-          Reach.one' (i := .compareAndPreserve op) _ hcap rfl (by simp [MJ.Vm.step, hst, hr, Except.map])
+        have r2 : Pushed E { s with pc := base + (relExpr e base aux).1.length, stack := b :: s.stack, closures := c1 }
+            (base + (relExpr e base aux).1.length + 1) (.bool r :: b :: st) :=
+          Pushed.first (i := .compareAndPreserve op) hcap (by simp [MJ.Vm.step, hst, hr, Except.map])
         cases r with
         | true =>
           simp at hev
-          have r3 : Reach ctx C { s with pc := base + (relExpr e base aux).1.length + 1, stack := .bool true :: b :: st }
-              { s with pc := base + (relExpr e base aux).1.length + 2, stack := b :: st } :=
-            Reach.one' (i := .jumpIfFalseOrPop cs) _ hjf rfl (by simp [MJ.Vm.step, truthy])
-          have r4 := ihC (o2 :: rest) ctx heap stack b v hev hs'.2 (by simp) C (base + (relExpr e base aux).1.length + 2)
-            (relExpr e base aux).2 cs { s with pc := base + (relExpr e base aux).1.length + 2, stack := b :: st } st
+          have r3 := r2.step (i := .jumpIfFalseOrPop cs) (p2 := base + (relExpr e base aux).1.length + 2) (st2 := b :: st)
+            hjf (fun cls1 => by simp [MJ.Vm.step, truthy])
+          refine r3.trans (fun c2 x2 => ?_)
+          have r4 := ihC E (o2 :: rest) b v hev hs'.2 (by simp) (base + (relExpr e base aux).1.length + 2)
+            (relExpr e base aux).2 cs
+            { s with pc := base + (relExpr e base aux).1.length + 2, stack := b :: st, closures := c2 } st
             (At.cast hAt.right (by simp [Nat.add_assoc])) hoof
             (by rw [← hJ]; congr 1; simp only [List.length_append, List.length_cons, List.length_nil]; omega)
-            hCl rfl rfl henv
-          exact r1.trans (r2.trans (r3.trans r4))
+            hCl rfl rfl ((hok.next x1 _ _).next x2 _ _)
+          exact r4.cast rfl rfl
         | false =>
           simp at hev; subst hev
-          have r3 : Reach ctx C { s with pc := base + (relExpr e base aux).1.length + 1, stack := .bool false :: b :: st }
-              { s with pc := cs, stack := .bool false :: b :: st } :=
-            Reach.one' (i := .jumpIfFalseOrPop cs) _ hjf rfl (by simp [MJ.Vm.step, truthy])
-          have r4 : Reach ctx C { s with pc := cs, stack := .bool false :: b :: st }
-              { s with pc := cs + 1, stack := b :: .bool false :: st } :=
-            Reach.one' (i := .swap) _ hCl.head rfl (by simp [MJ.Vm.step])
-          have r5 : Reach ctx C { s with pc := cs + 1, stack := b :: .bool false :: st }
-              { s with pc := cs + 2, stack := .bool false :: st } :=
-            Reach.one' (i := .discardTop) _ hCl.tail.head rfl (by simp [MJ.Vm.step])
-          exact r1.trans (r2.trans (r3.trans (r4.trans r5)))
+          have r3 := r2.step (i := .jumpIfFalseOrPop cs) (p2 := cs) (st2 := .bool false :: b :: st)
+            hjf (fun cls1 => by simp [MJ.Vm.step, truthy])
+          have r4 := r3.step (i := .swap) (p2 := cs + 1) (st2 := b :: .bool false :: st) hCl.head
+            (fun cls1 => by simp [MJ.Vm.step])
+          exact r4.step (i := .discardTop) (p2 := cs + 2) (st2 := .bool false :: st) hCl.tail.head
+            (fun cls1 => by simp [MJ.Vm.step])
+
+
+/-! ## The arguments of a call -/
+
+def flatKw (kw : List (String × Val)) : List Val := flat (kw.map fun p => (Val.str p.1, p.2))
+
+def SimPosArgs (n : Nat) : Prop :=
+  ∀ (E : ECtx) args as, evalArgs n E.K.ctx E.heap (E.loc ++ E.env) args = .ok as → wfCallArgs E.K.M E.P E.A args = true →
+    ∀ base a s, At E.K.C base (relPosArgs args base a).1 → (relPosArgs args base a).2.oof = false → s.pc = base → E.ok s →
+      Pushed E s (base + (relPosArgs args base a).1.length) ((splitArgs as).1.reverse ++ s.stack)
+
+def SimKwArgs (n : Nat) : Prop :=
+  ∀ (E : ECtx) args as, evalArgs n E.K.ctx E.heap (E.loc ++ E.env) args = .ok as → wfCallArgs E.K.M E.P E.A args = true →
+    ∀ base a s, At E.K.C base (relKwArgs args base a).1 → (relKwArgs args base a).2.oof = false → s.pc = base → E.ok s →
+      Pushed E s (base + (relKwArgs args base a).1.length) ((flatKw (splitArgs as).2).reverse ++ s.stack)
+
+theorem oof_false_of_relPosArgs {args b a} (h : (relPosArgs args b a).2.oof = false) : a.oof = false := by
+  cases ha : a.oof with
+  | false => rfl
+  | true => rw [relPosArgs_oof_mono args b a ha] at h; cases h
+
+theorem oof_false_of_relKwArgs {args b a} (h : (relKwArgs args b a).2.oof = false) : a.oof = false := by
+  cases ha : a.oof with
+  | false => rfl
+  | true => rw [relKwArgs_oof_mono args b a ha] at h; cases h
+
+theorem splitArgs_cons_none (v : Val) (vs : List (Option String × Val)) :
+    splitArgs ((none, v) :: vs) = (v :: (splitArgs vs).1, (splitArgs vs).2) := by simp [splitArgs]
+
+theorem splitArgs_cons_some (k : String) (v : Val) (vs : List (Option String × Val)) :
+    splitArgs ((some k, v) :: vs) = ((splitArgs vs).1, (k, v) :: (splitArgs vs).2) := by simp [splitArgs]
+
+theorem sim_posArgs_step {n} (ihE : SimExpr n) (ihA : SimPosArgs n) : SimPosArgs (n + 1) := by
+  intro E args as hev hs base a s hAt hoof hpc hok
+  cases args with
+  | nil =>
+    simp [evalArgs] at hev; subst hev
+    simp [relPosArgs, splitArgs]; rw [← hpc]; exact Pushed.refl E s
+  | cons arg rest =>
+    obtain ⟨k, e⟩ := arg
+    simp only [evalArgs, bind, Except.bind] at hev
+    split at hev
+    · simp at hev
+    · rename_i v hv
+      split at hev
+      · simp at hev
+      · rename_i ws hws
+        simp at hev; subst hev
+        have hs' : wfExpr E.K.M E.P E.A e = true ∧ wfCallArgs E.K.M E.P E.A rest = true := by simpa [wfCallArgs] using hs
+        cases k with
+        | some k =>
+          simp only [relPosArgs, splitArgs_cons_some] at hAt hoof ⊢
+          exact ihA E rest ws hws hs'.2 base a s hAt hoof hpc hok
+        | none =>
+          simp only [relPosArgs, splitArgs_cons_none] at hAt hoof ⊢
+          have ho1 := oof_false_of_relPosArgs hoof
+          have r1 := ihE E e v hv hs'.1 base a s hAt.left ho1 hpc hok
+          refine r1.trans (fun c1 x1 => ?_)
+          have r2 := ihA E rest ws hws hs'.2 (base + (relExpr e base a).1.length) (relExpr e base a).2
+            { s with pc := base + (relExpr e base a).1.length, stack := v :: s.stack, closures := c1 } hAt.right hoof rfl
+            (hok.next x1 _ _)
+          exact r2.cast (by vmeq) (by vmeq)
+
+theorem sim_kwArgs_step {n} (ihE : SimExpr n) (ihA : SimKwArgs n) : SimKwArgs (n + 1) := by
+  intro E args as hev hs base a s hAt hoof hpc hok
+  cases args with
+  | nil =>
+    simp [evalArgs] at hev; subst hev
+    simp [relKwArgs, splitArgs, flatKw, flat]; rw [← hpc]; exact Pushed.refl E s
+  | cons arg rest =>
+    obtain ⟨k, e⟩ := arg
+    simp only [evalArgs, bind, Except.bind] at hev
+    split at hev
+    · simp at hev
+    · rename_i v hv
+      split at hev
+      · simp at hev
+      · rename_i ws hws
+        simp at hev; subst hev
+        have hs' : wfExpr E.K.M E.P E.A e = true ∧ wfCallArgs E.K.M E.P E.A rest = true := by simpa [wfCallArgs] using hs
+        cases k with
+        | none =>
+          simp only [relKwArgs, splitArgs_cons_none] at hAt hoof ⊢
+          exact ihA E rest ws hws hs'.2 base a s hAt hoof hpc hok
+        | some k =>
+          simp only [relKwArgs, splitArgs_cons_some] at hAt hoof ⊢
+          have ho1 := oof_false_of_relKwArgs hoof
+          have p0 : Pushed E s (base + 1) (.str k :: s.stack) :=
+            Pushed.first (i := .loadConst (.str k)) (by rw [hpc]; exact hAt.left.left.head) (by simp [MJ.Vm.step, hpc])
+          refine p0.trans (fun c0 x0 => ?_)
+          have r1 := ihE E e v hv hs'.1 (base + 1) a
+            { s with pc := base + 1, stack := .str k :: s.stack, closures := c0 }
+            (At.cast hAt.left.right (by simp)) ho1 rfl (hok.next x0 _ _)
+          refine r1.trans (fun c1 x1 => ?_)
+          have r2 := ihA E rest ws hws hs'.2 (base + 1 + (relExpr e (base + 1) a).1.length) (relExpr e (base + 1) a).2
+            { s with pc := base + 1 + (relExpr e (base + 1) a).1.length, stack := v :: .str k :: s.stack, closures := c1 }
+            (At.cast hAt.right (by simp [Nat.add_assoc]; omega)) hoof rfl ((hok.next x0 (base + 1) (.str k :: s.stack)).next x1 _ _)
+          exact r2.cast (by simp [Nat.add_assoc]; omega) (by simp [flatKw, flat])
+
+/-! keyword bundles -/
+
+theorem assocGet_mapInsert (k k' : String) (v : Val) : ∀ (acc : List (String × Val)),
+    assocGet k' (mapInsert k v acc) = if k' = k then some v else assocGet k' acc
+  | [] => by
+    by_cases h : k' = k
+    · subst h; simp [mapInsert, assocGet]
+    · have : ¬ k = k' := fun e => h e.symm
+      simp [mapInsert, assocGet, h, this]
+  | (k1, v1) :: rest => by
+    simp only [mapInsert]
+    by_cases h1 : k = k1
+    · subst h1
+      by_cases h : k' = k
+      · subst h; simp [assocGet]
+      · have : ¬ k = k' := fun e => h e.symm
+        simp [assocGet, h, this]
+    · simp only [h1, if_false]
+      by_cases h2 : k < k1
+      · simp only [h2, if_true]
+        by_cases h : k' = k
+        · subst h; simp [assocGet]
+        · have : ¬ k = k' := fun e => h e.symm
+          simp [assocGet, h, this]
+      · simp only [h2, if_false]
+        have ih := assocGet_mapInsert k k' v rest
+        by_cases h : k1 = k'
+        · subst h
+          have : ¬ k1 = k := fun e => h1 e.symm
+          simp [assocGet, this]
+        · simp [assocGet, h, ih]
+
+theorem insertPairs_kw : ∀ (kw : List (String × Val)) (acc : List (String × Val)),
+    (kw.map (·.1)).Nodup → (∀ k ∈ kw.map (·.1), assocGet k acc = none) →
+    ∃ m, insertPairs (kw.map fun p => (Val.str p.1, p.2)) acc = .ok m ∧
+      ∀ k', assocGet k' m = match assocGet k' kw with
+        | some v => some v
+        | none => assocGet k' acc
+  | [], acc, _, _ => ⟨acc, by simp [insertPairs], fun k' => by simp [assocGet]⟩
+  | (k, v) :: rest, acc, hnd, hacc => by
+    have hk : assocGet k acc = none := hacc k (by simp)
+    have hnd' : (rest.map (·.1)).Nodup := (List.nodup_cons.1 (by simpa using hnd)).2
+    have hknot : k ∉ rest.map (·.1) := (List.nodup_cons.1 (by simpa using hnd)).1
+    have hacc' : ∀ k2 ∈ rest.map (·.1), assocGet k2 (mapInsert k v acc) = none := by
+      intro k2 hk2
+      rw [assocGet_mapInsert]
+      have : ¬ k2 = k := fun e => hknot (e ▸ hk2)
+      simp [this, hacc k2 (by simp [hk2])]
+    obtain ⟨m, hm, hget⟩ := insertPairs_kw rest (mapInsert k v acc) hnd' hacc'
+    refine ⟨m, by simp [insertPairs, hk, hm], fun k' => ?_⟩
+    rw [hget k', assocGet_mapInsert]
+    by_cases h : k = k'
+    · subst h
+      have : assocGet k rest = none := by
+        cases hg : assocGet k rest with
+        | none => rfl
+        | some w =>
+          have := MJ.ArgBind.assocGet_mem hg
+          exact absurd (List.mem_map.2 ⟨(k, w), this, rfl⟩) hknot
+      simp [assocGet, this]
+    · have : ¬ k' = k := fun e => h e.symm
+      simp [assocGet, h, this]
+
+theorem pairUp_flatKw (kw : List (String × Val)) : pairUp (flatKw kw) = some (kw.map fun p => (Val.str p.1, p.2)) := by
+  unfold flatKw; exact pairUp_flat _
+
+theorem flatKw_length (kw : List (String × Val)) : (flatKw kw).length = 2 * kw.length := by
+  unfold flatKw; rw [flat_length]; simp
+
+/-- the keys of the evaluated arguments are the keys of the argument expressions -/
+theorem evalArgs_keysOf {n ctx heap stack} : ∀ (args : List (Option String × Expr)) (as),
+    evalArgs n ctx heap stack args = .ok as → (splitArgs as).2.map (·.1) = keysOf args ∧
+      (splitArgs as).1.length = (posArgs args).length ∧ (splitArgs as).2.length = (kwArgs args).length := by
+  induction n with
+  | zero => intro args as h; simp [evalArgs] at h
+  | succ m ih =>
+    intro args as h
+    cases args with
+    | nil => simp [evalArgs] at h; subst h; simp [splitArgs, keysOf, posArgs, kwArgs]
+    | cons arg rest =>
+      obtain ⟨k, e⟩ := arg
+      simp only [evalArgs, bind, Except.bind] at h
+      split at h
+      · simp at h
+      · split at h
+        · simp at h
+        · rename_i v _ ws hws
+          simp at h; subst h
+          have := ih rest ws hws
+          cases k with
+          | none => simpa [splitArgs_cons_none, keysOf, posArgs, kwArgs] using this
+          | some k => simpa [splitArgs_cons_some, keysOf, posArgs, kwArgs] using this
+
+/-- literal keyword arguments: the constant bundle the code generator builds is the bundle of the
+evaluated arguments -/
+theorem staticKwargs_bundle {n ctx heap stack} : ∀ (args : List (Option String × Expr)) (as) (m),
+    evalArgs n ctx heap stack args = .ok as → staticKwargs (kwArgs args) = some m → (keysOf args).Nodup →
+    ∀ k, assocGet k m = assocGet k (splitArgs as).2 := by
+  induction n with
+  | zero => intro args as m h; simp [evalArgs] at h
+  | succ j ih =>
+    intro args as m h hst hnd
+    cases args with
+    | nil =>
+      simp [evalArgs] at h; subst h
+      simp [kwArgs, staticKwargs] at hst; subst hst
+      intro k; simp [splitArgs, assocGet]
+    | cons arg rest =>
+      obtain ⟨k0, e⟩ := arg
+      simp only [evalArgs, bind, Except.bind] at h
+      split at h
+      · simp at h
+      · rename_i v hv
+        split at h
+        · simp at h
+        · rename_i ws hws
+          simp at h; subst h
+          cases k0 with
+          | none =>
+            have : kwArgs ((none, e) :: rest) = kwArgs rest := by simp [kwArgs]
+            rw [this] at hst
+            have hnd' : (keysOf rest).Nodup := by simpa [keysOf] using hnd
+            simpa [splitArgs_cons_none] using ih rest ws m hws hst hnd'
+          | some k0 =>
+            have hkw : kwArgs ((some k0, e) :: rest) = (k0, e) :: kwArgs rest := by simp [kwArgs]
+            rw [hkw] at hst
+            have hnd' : k0 ∉ keysOf rest ∧ (keysOf rest).Nodup := by simpa [keysOf] using hnd
+            cases e with
+            | const l =>
+              simp only [staticKwargs] at hst
+              cases hr : staticKwargs (kwArgs rest) with
+              | none => rw [hr] at hst; simp at hst
+              | some m' =>
+                rw [hr] at hst
+                simp only [Option.map_some, Option.some.injEq] at hst
+                have ihr := ih rest ws m' hws hr hnd'.2
+                have hk0 : assocGet k0 m' = none := by
+                  rw [ihr k0]
+                  cases hg : assocGet k0 (splitArgs ws).2 with
+                  | none => rfl
+                  | some w =>
+                    have hmem := MJ.ArgBind.assocGet_mem hg
+                    have : k0 ∈ (splitArgs ws).2.map (·.1) := List.mem_map.2 ⟨(k0, w), hmem, rfl⟩
+                    rw [(evalArgs_keysOf rest ws hws).1] at this
+                    exact absurd this hnd'.1
+                rw [hk0] at hst
+                subst hst
+                have hvl : v = litVal l := by
+                  cases j with
+                  | zero => simp [evalExpr] at hv
+                  | succ j' => simp [evalExpr] at hv; exact hv.symm
+                intro k
+                rw [assocGet_mapInsert, splitArgs_cons_some]
+                by_cases hk : k = k0
+                · subst hk; simp [assocGet, hvl]
+                · have : ¬ k0 = k := fun e => hk e.symm
+                  simp [assocGet, hk, this, ihr k]
+            | _ => simp [staticKwargs] at hst
+
+theorem allowed_safe {P : Option (List String)} {A : List String} {x : String} {heap : Heap} {loc : List Nat}
+    (h : allowed P A x = true) (hA : ABound heap loc A) : BoundIn heap loc x ∨ tailOk P x := by
+  cases P with
+  | none => exact Or.inr trivial
+  | some fv =>
+    simp only [allowed, Bool.or_eq_true, List.contains_iff_mem] at h
+    rcases h with h | h
+    · exact Or.inr h
+    · exact Or.inl (hA x h)
+
+/-- what the VM finds for a readable variable, against the reference semantics -/
+theorem ECtx.ok.lookup {E : ECtx} {s : VmState} (h : E.ok s) {x : String} (hx : allowed E.P E.A x = true) :
+    ValAgree E.K E.G s.closures E.heap.length x ((MJ.Eval.lookup E.K.ctx E.heap (E.loc ++ E.env) x).getD .undef)
+      (lookupFrames E.K.ctx s.closures x s.frames) :=
+  h.1.lookupAgree h.2.2 x (allowed_safe hx h.2.1)
+
+theorem rel_call {x args} (base a) :
+    relExpr (.call (.var x) args) base a =
+      match kwArgs args with
+      | [] => ((relPosArgs args base a).1 ++ [.callFunction x (posArgs args).length], (relPosArgs args base a).2)
+      | k0 :: ks =>
+        match staticKwargs (k0 :: ks) with
+        | some m => ((relPosArgs args base a).1 ++ [.loadConst (.kwargs m), .callFunction x ((posArgs args).length + 1)],
+            (relPosArgs args base a).2)
+        | none =>
+          ((relPosArgs args base a).1 ++ (relKwArgs args (base + (relPosArgs args base a).1.length) (relPosArgs args base a).2).1 ++
+            [.buildKwargs (k0 :: ks).length, .callFunction x ((posArgs args).length + 1)],
+           (relKwArgs args (base + (relPosArgs args base a).1.length) (relPosArgs args base a).2).2) := by
+  conv => lhs; unfold relExpr
+  simp only [asConst]
+  cases kwArgs args with
+  | nil => rfl
+  | cons k0 ks => simp only; cases staticKwargs (k0 :: ks) <;> rfl
+
+/-- the `CallFunction` at the end of the code of a call: the argument values are on the operand stack -/
+theorem sim_call_instr {n} (ihCall : SimCall n) {E : ECtx} {s : VmState} {x : String} {w v : Val}
+    {as : List (Option String × Val)} {args : List Val} {pcC : Nat} (hok : E.ok s)
+    (hxM : x ∈ E.K.M) (hxa : allowed E.P E.A x = true)
+    (hw : MJ.Eval.lookup E.K.ctx E.heap (E.loc ++ E.env) x = some w)
+    (hcall : callValue n E.K.ctx E.heap w as = .ok v)
+    (hargs : ∀ cls, Ext s.closures cls → ArgsRel E.K E.G cls E.heap.length as args)
+    (hi : E.K.C[pcC]? = some (.callFunction x args.length))
+    (hp : Pushed E s pcC (args.reverse ++ s.stack)) : Pushed E s (pcC + 1) (v :: s.stack) := by
+  obtain ⟨c1, x1, r1⟩ := hp
+  have hok1 := hok.next x1 pcC (args.reverse ++ s.stack)
+  have hag := hok1.lookup hxa
+  rw [hw] at hag
+  simp only [Option.getD_some, ValAgree, if_pos hxM] at hag
+  obtain ⟨nm, spec, off, clo, cref, vals, caller, s1, hu, hprep, hreach, hret, hv, hext⟩ :=
+    ihCall E.K E.G E.heap c1 w _ as args v hcall hag (hargs c1 x1) hok1.1.ginv hok1.1.plain
+  refine ⟨s1.closures, x1.trans hext, r1.trans ?_⟩
+  refine Reach.call (name := x) (argc := args.length) (args := args) (rest := s.stack) hi
+    (by simpa using popN_append args s.stack) hu hprep hreach hret ?_
+  subst hv
+  exact Reach.refl _
+
 
 theorem sim_expr_step {n} (ihE : SimExpr n) (ihL : SimList n) (ihA : SimArgs n) (ihP : SimPairs n)
-    (ihC : SimChain n) :
+    (ihC : SimChain n) (ihPA : SimPosArgs n) (ihKA : SimKwArgs n) (ihCall : SimCall n) :
     SimExpr (n + 1) := by
-  intro e ctx heap stack v hev hs C base a s hAt hoof hpc henv
+  intro E e v hev hs base a s hAt hoof hpc hok
   cases hc : asConst e with
   | val w => exact sim_folded hc hev hAt hpc
   | oof => rw [relExpr_oof hc] at hoof; simp at hoof
@@ -435,10 +897,13 @@ theorem sim_expr_step {n} (ihE : SimExpr n) (ihL : SimList n) (ihA : SimArgs n) 
     | var x =>
       rw [rel_var] at hAt ⊢
       simp [evalExpr] at hev; subst hev
-      refine Reach.one (i := .lookup x) (by rw [hpc]; exact hAt.head) ?_
-      simp [MJ.Vm.step, hpc, henv x]
+      have hx : ¬ x ∈ E.K.M ∧ allowed E.P E.A x = true := by simpa [wfExpr] using hs
+      have hag := hok.lookup hx.2
+      simp only [ValAgree, if_neg hx.1] at hag
+      refine Pushed.first (i := .lookup x) (by rw [hpc]; exact hAt.head) ?_
+      simp [MJ.Vm.step, hpc, hag]
     | unop op x =>
-      have hsx : simpleExpr x = true := by simpa [simpleExpr] using hs
+      have hsx : wfExpr E.K.M E.P E.A x = true := by simpa [wfExpr] using hs
       cases op with
       | not =>
         rw [rel_not hc] at hAt hoof ⊢
@@ -447,16 +912,16 @@ theorem sim_expr_step {n} (ihE : SimExpr n) (ihL : SimList n) (ihA : SimArgs n) 
         · simp at hev
         · rename_i w hw
           simp at hev; subst hev
-          exact sim_unary ihE hw hsx hAt hoof hpc henv (fun s1 h1 => by simp [MJ.Vm.step, h1])
+          exact sim_unary ihE hw hsx hAt hoof hpc hok (fun s1 h1 => by simp [MJ.Vm.step, h1])
       | neg =>
         rw [rel_neg hc] at hAt hoof ⊢
         simp only [evalExpr, bind, Except.bind] at hev
         split at hev
         · simp at hev
         · rename_i w hw
-          exact sim_unary ihE hw hsx hAt hoof hpc henv (fun s1 h1 => by simp [MJ.Vm.step, h1, hev, Except.map])
+          exact sim_unary ihE hw hsx hAt hoof hpc hok (fun s1 h1 => by simp [MJ.Vm.step, h1, hev, Except.map])
     | binop op l r =>
-      have hs' : simpleExpr l = true ∧ simpleExpr r = true := by simpa [simpleExpr] using hs
+      have hs' : wfExpr E.K.M E.P E.A l = true ∧ wfExpr E.K.M E.P E.A r = true := by simpa [wfExpr] using hs
       by_cases hand : op = .and
       · subst hand
         rw [rel_and hc] at hAt hoof ⊢
@@ -465,17 +930,19 @@ theorem sim_expr_step {n} (ihE : SimExpr n) (ihL : SimList n) (ihA : SimArgs n) 
         · simp at hev
         · rename_i x hx
           have ho1 := oof_false_of_relExpr hoof
-          have r1 := ihE l ctx heap stack x hx hs'.1 C base a s hAt.left.left ho1 hpc henv
+          have r1 := ihE E l x hx hs'.1 base a s hAt.left.left ho1 hpc hok
           have hj := hAt.left.right.head
           by_cases ht : truthy x = true
           · simp [ht] at hev
-            have r2 := ihE r ctx heap stack v hev hs'.2 C (base + (relExpr l base a).1.length + 1) (relExpr l base a).2
-              { s with pc := base + (relExpr l base a).1.length + 1, stack := s.stack }
-              (At.cast hAt.right (by simp [Nat.add_assoc]; try omega)) hoof rfl henv
-            refine r1.trans (Reach.cons (i := .jumpIfFalseOrPop _) hj (by simp [MJ.Vm.step, ht]; rfl) ?_)
+            have r1' := r1.step (i := .jumpIfFalseOrPop _) (p2 := base + (relExpr l base a).1.length + 1) (st2 := s.stack)
+              hj (fun cls1 => by simp [MJ.Vm.step, ht])
+            refine r1'.trans (fun c1 x1 => ?_)
+            have r2 := ihE E r v hev hs'.2 (base + (relExpr l base a).1.length + 1) (relExpr l base a).2
+              { s with pc := base + (relExpr l base a).1.length + 1, stack := s.stack, closures := c1 }
+              (At.cast hAt.right (by simp [Nat.add_assoc]; try omega)) hoof rfl (hok.next x1 _ _)
             exact r2.cast (by vmeq) (by vmeq)
           · simp [ht] at hev; subst hev
-            refine r1.trans (Reach.one (i := .jumpIfFalseOrPop _) hj ?_)
+            refine (r1.step (i := .jumpIfFalseOrPop _) hj (fun cls1 => ?_)).cast rfl rfl
             simp [MJ.Vm.step, ht]; vmeq
       · by_cases hor : op = .or
         · subst hor
@@ -485,17 +952,19 @@ theorem sim_expr_step {n} (ihE : SimExpr n) (ihL : SimList n) (ihA : SimArgs n) 
           · simp at hev
           · rename_i x hx
             have ho1 := oof_false_of_relExpr hoof
-            have r1 := ihE l ctx heap stack x hx hs'.1 C base a s hAt.left.left ho1 hpc henv
+            have r1 := ihE E l x hx hs'.1 base a s hAt.left.left ho1 hpc hok
             have hj := hAt.left.right.head
             by_cases ht : truthy x = true
             · simp [ht] at hev; subst hev
-              refine r1.trans (Reach.one (i := .jumpIfTrueOrPop _) hj ?_)
+              refine (r1.step (i := .jumpIfTrueOrPop _) hj (fun cls1 => ?_)).cast rfl rfl
               simp [MJ.Vm.step, ht]; vmeq
             · simp [ht] at hev
-              have r2 := ihE r ctx heap stack v hev hs'.2 C (base + (relExpr l base a).1.length + 1) (relExpr l base a).2
-                { s with pc := base + (relExpr l base a).1.length + 1, stack := s.stack }
-                (At.cast hAt.right (by simp [Nat.add_assoc]; try omega)) hoof rfl henv
-              refine r1.trans (Reach.cons (i := .jumpIfTrueOrPop _) hj (by simp [MJ.Vm.step, ht]; rfl) ?_)
+              have r1' := r1.step (i := .jumpIfTrueOrPop _) (p2 := base + (relExpr l base a).1.length + 1) (st2 := s.stack)
+                hj (fun cls1 => by simp [MJ.Vm.step, ht])
+              refine r1'.trans (fun c1 x1 => ?_)
+              have r2 := ihE E r v hev hs'.2 (base + (relExpr l base a).1.length + 1) (relExpr l base a).2
+                { s with pc := base + (relExpr l base a).1.length + 1, stack := s.stack, closures := c1 }
+                (At.cast hAt.right (by simp [Nat.add_assoc]; try omega)) hoof rfl (hok.next x1 _ _)
               exact r2.cast (by vmeq) (by vmeq)
         · rw [rel_binop hc hand hor] at hAt hoof ⊢
           rw [evalExpr_binop hand hor] at hev
@@ -507,14 +976,17 @@ theorem sim_expr_step {n} (ihE : SimExpr n) (ihL : SimList n) (ihA : SimArgs n) 
             · simp at hev
             · rename_i y hy
               have ho1 := oof_false_of_relExpr hoof
-              have r1 := ihE l ctx heap stack x hx hs'.1 C base a s hAt.left.left ho1 hpc henv
-              have r2 := ihE r ctx heap stack y hy hs'.2 C (base + (relExpr l base a).1.length) (relExpr l base a).2
-                { s with pc := base + (relExpr l base a).1.length, stack := x :: s.stack } hAt.left.right hoof rfl henv
-              refine r1.trans (r2.trans (Reach.one (i := binInstr op) ?_ ?_))
+              have r1 := ihE E l x hx hs'.1 base a s hAt.left.left ho1 hpc hok
+              refine r1.trans (fun c1 x1 => ?_)
+              have r2 := ihE E r y hy hs'.2 (base + (relExpr l base a).1.length) (relExpr l base a).2
+                { s with pc := base + (relExpr l base a).1.length, stack := x :: s.stack, closures := c1 } hAt.left.right hoof rfl
+                (hok.next x1 _ _)
+              refine (r2.step (i := binInstr op) ?_ (fun cls1 => ?_)).cast rfl rfl
               · have := hAt.right.head; simpa [Nat.add_assoc] using this
               · rw [step_binInstr hand hor rfl hev]; vmeq
     | cmp x ops =>
-      have hs' : (2 ≤ ops.length ∧ simpleExpr x = true) ∧ simpleChain ops = true := by simpa [simpleExpr] using hs
+      have hs' : (2 ≤ ops.length ∧ wfExpr E.K.M E.P E.A x = true) ∧ wfChain E.K.M E.P E.A ops = true := by
+        simpa [wfExpr] using hs
       have hrel : relExpr (.cmp x ops) base a =
           ((relExpr x base a).1 ++
             (relChain ops (base + (relExpr x base a).1.length) (relExpr x base a).2
@@ -536,21 +1008,22 @@ theorem sim_expr_step {n} (ihE : SimExpr n) (ihL : SimList n) (ihA : SimArgs n) 
           (base + (relExpr x base a).1.length +
             (relChain ops (base + (relExpr x base a).1.length) (relExpr x base a).2 0).1.length + 1) 0).1
         have ho1 := oof_false_of_relChain hoof
-        have r1 := ihE x ctx heap stack xv hx hs'.1.2 C base a s hAt.left.left ho1 hpc henv
+        have r1 := ihE E x xv hx hs'.1.2 base a s hAt.left.left ho1 hpc hok
         have hne : ops ≠ [] := by intro h0; rw [h0] at hs'; simp at hs'
-        have r2 := ihC ops ctx heap stack xv v hev hs'.2 hne C (base + (relExpr x base a).1.length) (relExpr x base a).2
+        refine r1.trans (fun c1 x1 => ?_)
+        have r2 := ihC E ops xv v hev hs'.2 hne (base + (relExpr x base a).1.length) (relExpr x base a).2
           (base + (relExpr x base a).1.length +
             (relChain ops (base + (relExpr x base a).1.length) (relExpr x base a).2 0).1.length + 1)
-          { s with pc := base + (relExpr x base a).1.length, stack := xv :: s.stack } s.stack
+          { s with pc := base + (relExpr x base a).1.length, stack := xv :: s.stack, closures := c1 } s.stack
           hAt.left.right hoof
           (by have := hAt.right.head
-              refine Eq.trans (congrArg (fun k => C[k]?) ?_) this
+              refine Eq.trans (congrArg (fun k => E.K.C[k]?) ?_) this
               simp only [List.length_append]; omega)
           (At.cast hAt.right.tail (by simp only [List.length_append]; omega))
-          rfl rfl henv
-        refine (r1.trans r2).cast rfl ?_
+          rfl rfl (hok.next x1 _ _)
+        refine r2.cast ?_ rfl
         simp only [List.length_append, List.length_cons, List.length_nil]
-        congr 1; omega
+        omega
     | ife c t f =>
       simp only [evalExpr, bind, Except.bind] at hev
       split at hev
@@ -558,52 +1031,62 @@ theorem sim_expr_step {n} (ihE : SimExpr n) (ihL : SimList n) (ihA : SimArgs n) 
       · rename_i cv hcv
         cases f with
         | none =>
-          have hs' : simpleExpr c = true ∧ simpleExpr t = true := by simpa [simpleExpr] using hs
+          have hs' : wfExpr E.K.M E.P E.A c = true ∧ wfExpr E.K.M E.P E.A t = true := by simpa [wfExpr] using hs
           rw [rel_ife_none] at hAt hoof ⊢
           have ho1 := oof_false_of_relExpr hoof
-          have r1 := ihE c ctx heap stack cv hcv hs'.1 C base a s hAt.left.left.left.left ho1 hpc henv
+          have r1 := ihE E c cv hcv hs'.1 base a s hAt.left.left.left.left ho1 hpc hok
           have hj := hAt.left.left.left.right.head
           by_cases ht : truthy cv = true
           · simp [ht] at hev
-            have r2 := ihE t ctx heap stack v hev hs'.2 C (base + (relExpr c base a).1.length + 1) (relExpr c base a).2
-              { s with pc := base + (relExpr c base a).1.length + 1, stack := s.stack }
-              (At.cast hAt.left.left.right (by simp [Nat.add_assoc]; try omega)) hoof rfl henv
+            have r1' := r1.step (i := .jumpIfFalse _) (p2 := base + (relExpr c base a).1.length + 1) (st2 := s.stack)
+              hj (fun cls1 => by simp [MJ.Vm.step, ht])
+            refine r1'.trans (fun c1 x1 => ?_)
+            have r2 := ihE E t v hev hs'.2 (base + (relExpr c base a).1.length + 1) (relExpr c base a).2
+              { s with pc := base + (relExpr c base a).1.length + 1, stack := s.stack, closures := c1 }
+              (At.cast hAt.left.left.right (by simp [Nat.add_assoc]; try omega)) hoof rfl (hok.next x1 _ _)
             have hj2 := hAt.left.right.head
-            refine r1.trans (Reach.cons (i := .jumpIfFalse _) hj (by simp [MJ.Vm.step, ht]; rfl) ?_)
-            refine (r2.cast (by vmeq) rfl).trans (Reach.one' (i := .jump _) _ hj2 (by vmeq) ?_)
+            refine (r2.step (i := .jump _) (by rw [← hj2]; congr 1; vmeq) (fun cls1 => ?_)).cast rfl rfl
             simp [MJ.Vm.step]; vmeq
           · simp [ht] at hev; subst hev
             have hl := hAt.right.head
-            refine r1.trans (Reach.cons (i := .jumpIfFalse _) hj (by simp [MJ.Vm.step, ht]; rfl) ?_)
-            refine Reach.one' (i := .loadConst .undef) _ hl (by vmeq) ?_
+            have r1' := r1.step (i := .jumpIfFalse _)
+              (p2 := base + (relExpr c base a).1.length + 1 + (relExpr t (base + (relExpr c base a).1.length + 1) (relExpr c base a).2).1.length + 1)
+              (st2 := s.stack) hj (fun cls1 => by simp [MJ.Vm.step, ht])
+            refine (r1'.step (i := .loadConst .undef) (by rw [← hl]; congr 1; vmeq) (fun cls1 => ?_)).cast rfl rfl
             simp [MJ.Vm.step]; vmeq
         | some f =>
-          have hs' : (simpleExpr c = true ∧ simpleExpr t = true) ∧ simpleExpr f = true := by simpa [simpleExpr] using hs
+          have hs' : (wfExpr E.K.M E.P E.A c = true ∧ wfExpr E.K.M E.P E.A t = true) ∧ wfExpr E.K.M E.P E.A f = true := by
+            simpa [wfExpr] using hs
           rw [rel_ife_some] at hAt hoof ⊢
           simp only at hAt hoof ⊢
           have ho2 := oof_false_of_relExpr hoof
           have ho1 := oof_false_of_relExpr ho2
-          have r1 := ihE c ctx heap stack cv hcv hs'.1.1 C base a s hAt.left.left.left.left ho1 hpc henv
+          have r1 := ihE E c cv hcv hs'.1.1 base a s hAt.left.left.left.left ho1 hpc hok
           have hj := hAt.left.left.left.right.head
           by_cases ht : truthy cv = true
           · simp [ht] at hev
-            have r2 := ihE t ctx heap stack v hev hs'.1.2 C (base + (relExpr c base a).1.length + 1) (relExpr c base a).2
-              { s with pc := base + (relExpr c base a).1.length + 1, stack := s.stack }
-              (At.cast hAt.left.left.right (by simp [Nat.add_assoc]; try omega)) ho2 rfl henv
+            have r1' := r1.step (i := .jumpIfFalse _) (p2 := base + (relExpr c base a).1.length + 1) (st2 := s.stack)
+              hj (fun cls1 => by simp [MJ.Vm.step, ht])
+            refine r1'.trans (fun c1 x1 => ?_)
+            have r2 := ihE E t v hev hs'.1.2 (base + (relExpr c base a).1.length + 1) (relExpr c base a).2
+              { s with pc := base + (relExpr c base a).1.length + 1, stack := s.stack, closures := c1 }
+              (At.cast hAt.left.left.right (by simp [Nat.add_assoc]; try omega)) ho2 rfl (hok.next x1 _ _)
             have hj2 := hAt.left.right.head
-            refine r1.trans (Reach.cons (i := .jumpIfFalse _) hj (by simp [MJ.Vm.step, ht]; rfl) ?_)
-            refine (r2.cast (by vmeq) rfl).trans (Reach.one' (i := .jump _) _ hj2 (by vmeq) ?_)
+            refine (r2.step (i := .jump _) (by rw [← hj2]; congr 1; vmeq) (fun cls1 => ?_)).cast rfl rfl
             simp [MJ.Vm.step]; vmeq
           · simp [ht] at hev
-            have r3 := ihE f ctx heap stack v hev hs'.2 C
+            have r1' := r1.step (i := .jumpIfFalse _)
+              (p2 := base + (relExpr c base a).1.length + 1 + (relExpr t (base + (relExpr c base a).1.length + 1) (relExpr c base a).2).1.length + 1)
+              (st2 := s.stack) hj (fun cls1 => by simp [MJ.Vm.step, ht])
+            refine r1'.trans (fun c1 x1 => ?_)
+            have r3 := ihE E f v hev hs'.2
               (base + (relExpr c base a).1.length + 1 + (relExpr t (base + (relExpr c base a).1.length + 1) (relExpr c base a).2).1.length + 1)
               (relExpr t (base + (relExpr c base a).1.length + 1) (relExpr c base a).2).2
-              { s with pc := base + (relExpr c base a).1.length + 1 + (relExpr t (base + (relExpr c base a).1.length + 1) (relExpr c base a).2).1.length + 1, stack := s.stack }
-              (At.cast hAt.right (by simp [Nat.add_assoc]; try omega)) hoof rfl henv
-            refine r1.trans (Reach.cons (i := .jumpIfFalse _) hj (by simp [MJ.Vm.step, ht]; rfl) ?_)
+              { s with pc := base + (relExpr c base a).1.length + 1 + (relExpr t (base + (relExpr c base a).1.length + 1) (relExpr c base a).2).1.length + 1, stack := s.stack, closures := c1 }
+              (At.cast hAt.right (by simp [Nat.add_assoc]; try omega)) hoof rfl (hok.next x1 _ _)
             exact r3.cast (by vmeq) (by vmeq)
     | filter name x args =>
-      have hs' : simpleExpr x = true ∧ simpleArgs args = true := by simpa [simpleExpr] using hs
+      have hs' : wfExpr E.K.M E.P E.A x = true ∧ wfArgs E.K.M E.P E.A args = true := by simpa [wfExpr] using hs
       have hrel : relExpr (.filter name x args) base a =
           ((relExpr x base a).1 ++ (relArgs args (base + (relExpr x base a).1.length) (relExpr x base a).2).1 ++
             [.applyFilter name (1 + args.length)
@@ -626,10 +1109,12 @@ theorem sim_expr_step {n} (ihE : SimExpr n) (ihL : SimList n) (ihA : SimArgs n) 
           have hoA : (relArgs args (base + (relExpr x base a).1.length) (relExpr x base a).2).2.oof = false := by
             simpa using hoof
           have ho1 := oof_false_of_relArgs hoA
-          have r1 := ihE x ctx heap stack xv hx hs'.1 C base a s hAt.left.left ho1 hpc henv
-          have r2 := ihA args ctx heap stack as has hs'.2 C (base + (relExpr x base a).1.length) (relExpr x base a).2
-            { s with pc := base + (relExpr x base a).1.length, stack := xv :: s.stack } hAt.left.right hoA rfl henv
-          refine r1.trans (r2.trans (Reach.one' (i := .applyFilter _ _ _) _ hAt.right.head (by vmeq) ?_))
+          have r1 := ihE E x xv hx hs'.1 base a s hAt.left.left ho1 hpc hok
+          refine r1.trans (fun c1 x1 => ?_)
+          have r2 := ihA E args as has hs'.2 (base + (relExpr x base a).1.length) (relExpr x base a).2
+            { s with pc := base + (relExpr x base a).1.length, stack := xv :: s.stack, closures := c1 } hAt.left.right hoA rfl
+            (hok.next x1 _ _)
+          refine (r2.step (i := .applyFilter _ _ _) (by rw [← hAt.right.head]; congr 1; vmeq) (fun cls1 => ?_)).cast rfl rfl
           have hlen : 1 + args.length = (xv :: as.map (·.2)).length := by
             simp [evalArgs_length args as has]; omega
           have hpop : popN (1 + args.length) ((as.map (·.2)).reverse ++ xv :: s.stack) = some (xv :: as.map (·.2), s.stack) := by
@@ -638,7 +1123,55 @@ theorem sim_expr_step {n} (ihE : SimExpr n) (ihL : SimList n) (ihA : SimArgs n) 
             simpa using this
           simp [MJ.Vm.step, hpop, hev, Except.map]; vmeq
     | test name x args =>
-      have hs' : simpleExpr x = true ∧ simpleArgs args = true := by simpa [simpleExpr] using hs
+      by_cases hMx : ∃ y, x = .var y ∧ y ∈ E.K.M
+      · -- `m is defined` for a macro name `m`: the macro object of the VM is defined like the macro value
+        obtain ⟨y, rfl, hyM⟩ := hMx
+        have hs' : (name = "defined" ∨ name = "undefined") ∧ allowed E.P E.A y = true ∧ args = [] := by
+          have := hs
+          simp only [wfExpr, Bool.or_eq_true, Bool.and_eq_true] at this
+          rcases this with h | h
+          · exact ⟨by simpa using h.1.1.2, h.1.2, by simpa using h.2⟩
+          · have : ¬ y ∈ E.K.M := by simpa using h.1.1
+            exact absurd hyM this
+        obtain ⟨hname, hya, rfl⟩ := hs'
+        have hrel : relExpr (.test name (.var y) []) base a =
+            ([.lookup y, .performTest name 1 (a.testId name).1], (a.testId name).2) := by
+          conv => lhs; unfold relExpr
+          simp [asConst, relArgs, relExpr]
+        rw [hrel] at hAt ⊢
+        simp only [evalExpr, evalArgs, bind, Except.bind] at hev
+        cases n with
+        | zero => simp [evalExpr] at hev
+        | succ n' =>
+          simp only [evalExpr, evalArgs, splitArgs, List.filterMap_nil] at hev
+          have hag := hok.lookup hya
+          simp only [ValAgree, if_pos hyM] at hag
+          have hkey : applyTest name (lookupFrames E.K.ctx s.closures y s.frames) [] =
+              applyTest name ((MJ.Eval.lookup E.K.ctx E.heap (E.loc ++ E.env) y).getD .undef) [] := by
+            generalize (MJ.Eval.lookup E.K.ctx E.heap (E.loc ++ E.env) y).getD .undef = w at hag
+            generalize lookupFrames E.K.ctx s.closures y s.frames = u at hag
+            cases w <;> first
+              | (have : u = _ := hag; subst this; rfl)
+              | (obtain ⟨off, clo, hu, _⟩ := hag; subst hu
+                 rcases hname with rfl | rfl <;> simp [applyTest])
+          cases ht : applyTest name ((MJ.Eval.lookup E.K.ctx E.heap (E.loc ++ E.env) y).getD .undef) [] with
+          | error e => simp [ht, Except.map] at hev
+          | ok b =>
+            simp [ht, Except.map] at hev; subst hev
+            have p1 : Pushed E s (base + 1) (lookupFrames E.K.ctx s.closures y s.frames :: s.stack) :=
+              Pushed.first (i := .lookup y) (by rw [hpc]; exact hAt.head) (by simp [MJ.Vm.step, hpc])
+            refine (p1.step (i := .performTest name 1 (a.testId name).1) (p2 := base + 2) (st2 := .bool b :: s.stack)
+              hAt.tail.head (fun cls1 => ?_)).cast (by simp) rfl
+            simp [MJ.Vm.step, popN, hkey, ht, Except.map]
+      have hs' : wfExpr E.K.M E.P E.A x = true ∧ wfArgs E.K.M E.P E.A args = true := by
+        have := hs
+        simp only [wfExpr, Bool.or_eq_true, Bool.and_eq_true] at this
+        rcases this with h | h
+        · cases x <;> try (simp at h; done)
+          rename_i y
+          simp only [Bool.and_eq_true] at h
+          exact absurd ⟨y, rfl, by simpa using h.1.1.1⟩ hMx
+        · exact h
       have hrel : relExpr (.test name x args) base a =
           ((relExpr x base a).1 ++ (relArgs args (base + (relExpr x base a).1.length) (relExpr x base a).2).1 ++
             [.performTest name (1 + args.length)
@@ -661,10 +1194,11 @@ theorem sim_expr_step {n} (ihE : SimExpr n) (ihL : SimList n) (ihA : SimArgs n) 
           have hoA : (relArgs args (base + (relExpr x base a).1.length) (relExpr x base a).2).2.oof = false := by
             simpa using hoof
           have ho1 := oof_false_of_relArgs hoA
-          have r1 := ihE x ctx heap stack xv hx hs'.1 C base a s hAt.left.left ho1 hpc henv
-          have r2 := ihA args ctx heap stack as has hs'.2 C (base + (relExpr x base a).1.length) (relExpr x base a).2
-            { s with pc := base + (relExpr x base a).1.length, stack := xv :: s.stack } hAt.left.right hoA rfl henv
-          refine r1.trans (r2.trans (Reach.one' (i := .performTest _ _ _) _ hAt.right.head (by vmeq) ?_))
+          have r1 := ihE E x xv hx hs'.1 base a s hAt.left.left ho1 hpc hok
+          refine r1.trans (fun c1 x1 => ?_)
+          have r2 := ihA E args as has hs'.2 (base + (relExpr x base a).1.length) (relExpr x base a).2
+            { s with pc := base + (relExpr x base a).1.length, stack := xv :: s.stack, closures := c1 } hAt.left.right hoA rfl
+            (hok.next x1 _ _)
           have hlen : 1 + args.length = (xv :: as.map (·.2)).length := by
             simp [evalArgs_length args as has]; omega
           have hpop : popN (1 + args.length) ((as.map (·.2)).reverse ++ xv :: s.stack) = some (xv :: as.map (·.2), s.stack) := by
@@ -675,17 +1209,18 @@ theorem sim_expr_step {n} (ihE : SimExpr n) (ihL : SimList n) (ihA : SimArgs n) 
           | error e => simp [ht, Except.map] at hev
           | ok b =>
             simp [ht, Except.map] at hev; subst hev
+            refine (r2.step (i := .performTest _ _ _) (by rw [← hAt.right.head]; congr 1; vmeq) (fun cls1 => ?_)).cast rfl rfl
             simp [MJ.Vm.step, hpop, ht, Except.map]; vmeq
     | getattr x name =>
-      have hsx : simpleExpr x = true := by simpa [simpleExpr] using hs
+      have hsx : wfExpr E.K.M E.P E.A x = true := by simpa [wfExpr] using hs
       rw [rel_getattr] at hAt hoof ⊢
       simp only [evalExpr, bind, Except.bind] at hev
       split at hev
       · simp at hev
       · rename_i w hw
-        exact sim_unary ihE hw hsx hAt hoof hpc henv (fun s1 h1 => by simp [MJ.Vm.step, h1, hev, Except.map])
+        exact sim_unary ihE hw hsx hAt hoof hpc hok (fun s1 h1 => by simp [MJ.Vm.step, h1, hev, Except.map])
     | getitem x i =>
-      have hs' : simpleExpr x = true ∧ simpleExpr i = true := by simpa [simpleExpr] using hs
+      have hs' : wfExpr E.K.M E.P E.A x = true ∧ wfExpr E.K.M E.P E.A i = true := by simpa [wfExpr] using hs
       rw [rel_getitem] at hAt hoof ⊢
       simp only [evalExpr, bind, Except.bind] at hev
       split at hev
@@ -695,15 +1230,95 @@ theorem sim_expr_step {n} (ihE : SimExpr n) (ihL : SimList n) (ihA : SimArgs n) 
         · simp at hev
         · rename_i iv hi
           have ho1 := oof_false_of_relExpr hoof
-          have r1 := ihE x ctx heap stack xv hx hs'.1 C base a s hAt.left.left ho1 hpc henv
-          have r2 := ihE i ctx heap stack iv hi hs'.2 C (base + (relExpr x base a).1.length) (relExpr x base a).2
-            { s with pc := base + (relExpr x base a).1.length, stack := xv :: s.stack } hAt.left.right hoof rfl henv
-          refine r1.trans (r2.trans (Reach.one (i := .getItem) ?_ ?_))
+          have r1 := ihE E x xv hx hs'.1 base a s hAt.left.left ho1 hpc hok
+          refine r1.trans (fun c1 x1 => ?_)
+          have r2 := ihE E i iv hi hs'.2 (base + (relExpr x base a).1.length) (relExpr x base a).2
+            { s with pc := base + (relExpr x base a).1.length, stack := xv :: s.stack, closures := c1 } hAt.left.right hoof rfl
+            (hok.next x1 _ _)
+          refine (r2.step (i := .getItem) ?_ (fun cls1 => ?_)).cast rfl rfl
           · have := hAt.right.head; simpa [Nat.add_assoc] using this
           · simp [MJ.Vm.step, hev, Except.map]; vmeq
-    | call f args => simp [simpleExpr] at hs
+    | call f args =>
+      cases f with
+      | var x =>
+        have hs' : ((x ∈ E.K.M ∧ allowed E.P E.A x = true) ∧ (keysOf args).Nodup ∧ ¬ "caller" ∈ keysOf args) ∧ wfCallArgs E.K.M E.P E.A args = true := by
+          simpa [wfExpr] using hs
+        simp only [evalExpr, bind, Except.bind] at hev
+        cases hw' : MJ.Eval.lookup E.K.ctx E.heap (E.loc ++ E.env) x with
+        | none => rw [hw'] at hev; simp at hev
+        | some w =>
+          rw [hw'] at hev
+          simp only at hev
+          split at hev
+          · simp at hev
+          · rename_i as has
+            obtain ⟨hkeys, hplen, hklen⟩ := evalArgs_keysOf args as has
+            have hplA : ∀ v, v ∈ as.map (·.2) → MJ.Eval.plain v = true := evalArgs_plain hok.1.plain n args as hs'.2 has
+            have hncA : "caller" ∉ (splitArgs as).2.map (·.1) := by rw [hkeys]; exact hs'.1.2.2
+            rw [rel_call] at hAt hoof ⊢
+            cases hk : kwArgs args with
+            | nil =>
+              simp only [hk] at hAt hoof ⊢
+              have hkw : (splitArgs as).2 = [] := by
+                have := hklen; rw [hk] at this; simpa using this
+              have p1 := ihPA E args as has hs'.2 base a s hAt.left hoof hpc hok
+              have := sim_call_instr ihCall (args := (splitArgs as).1) hok hs'.1.1.1 hs'.1.1.2 hw' hev
+                (fun _ _ => ArgsRel.of_data hplA hncA (Or.inl ⟨hkw, rfl⟩)) (by rw [hplen]; simpa using hAt.right.head) p1
+              exact this.cast (by simp; omega) rfl
+            | cons k0 ks =>
+              simp only [hk] at hAt hoof ⊢
+              have hkwne : (splitArgs as).2 ≠ [] := by
+                intro h0; have := hklen; rw [hk, h0] at this; simp at this
+              cases hst : staticKwargs (k0 :: ks) with
+              | some m =>
+                simp only [hst] at hAt hoof ⊢
+                have hbundle : KwBundle (splitArgs as).2 m := by
+                  have := staticKwargs_bundle args as m has (by rw [hk]; exact hst) hs'.1.2.1
+                  exact this
+                have p1 := ihPA E args as has hs'.2 base a s hAt.left hoof hpc hok
+                have p2 := p1.step (i := .loadConst (.kwargs m)) (p2 := base + (relPosArgs args base a).1.length + 1)
+                  (st2 := .kwargs m :: ((splitArgs as).1.reverse ++ s.stack)) hAt.right.head
+                  (fun cls1 => by simp [MJ.Vm.step])
+                have := sim_call_instr ihCall (args := (splitArgs as).1 ++ [.kwargs m]) hok hs'.1.1.1 hs'.1.1.2 hw' hev
+                  (fun _ _ => ArgsRel.of_data hplA hncA (Or.inr ⟨hkwne, m, hbundle, rfl⟩))
+                  (by have := hAt.right.tail.head; simpa [hplen, Nat.add_assoc] using this)
+                  (p2.cast rfl (by simp))
+                exact this.cast (by simp [Nat.add_assoc]; try omega) rfl
+              | none =>
+                simp only [hst] at hAt hoof ⊢
+                have ho1 := oof_false_of_relKwArgs hoof
+                have p1 := ihPA E args as has hs'.2 base a s hAt.left.left ho1 hpc hok
+                have p2 : Pushed E s (base + (relPosArgs args base a).1.length +
+                    (relKwArgs args (base + (relPosArgs args base a).1.length) (relPosArgs args base a).2).1.length)
+                    ((flatKw (splitArgs as).2).reverse ++ ((splitArgs as).1.reverse ++ s.stack)) := by
+                  refine p1.trans (fun c1 x1 => ?_)
+                  exact ihKA E args as has hs'.2 (base + (relPosArgs args base a).1.length) (relPosArgs args base a).2
+                    { s with pc := base + (relPosArgs args base a).1.length, stack := (splitArgs as).1.reverse ++ s.stack, closures := c1 }
+                    hAt.left.right hoof rfl (hok.next x1 _ _)
+                -- BuildKwargs
+                have hnd : ((splitArgs as).2.map (·.1)).Nodup := by rw [hkeys]; exact hs'.1.2.1
+                obtain ⟨m, hm, hget⟩ := insertPairs_kw (splitArgs as).2 [] hnd (fun k _ => by simp [assocGet])
+                have hbundle : KwBundle (splitArgs as).2 m := by
+                  intro k; rw [hget k]; cases assocGet k (splitArgs as).2 <;> simp [assocGet]
+                have hlen2 : (k0 :: ks).length = (splitArgs as).2.length := by rw [hklen, hk]
+                have p3 := p2.step (i := .buildKwargs (k0 :: ks).length)
+                  (p2 := base + (relPosArgs args base a).1.length +
+                    (relKwArgs args (base + (relPosArgs args base a).1.length) (relPosArgs args base a).2).1.length + 1)
+                  (st2 := .kwargs m :: ((splitArgs as).1.reverse ++ s.stack))
+                  (by have := hAt.right.head; simpa [Nat.add_assoc] using this)
+                  (fun cls1 => by
+                    have hpop : popN (2 * (k0 :: ks).length) ((flatKw (splitArgs as).2).reverse ++ ((splitArgs as).1.reverse ++ s.stack)) =
+                        some (flatKw (splitArgs as).2, (splitArgs as).1.reverse ++ s.stack) := by
+                      rw [hlen2, ← flatKw_length]; exact popN_append _ _
+                    simp only [MJ.Vm.step, hpop, pairUp_flatKw, hm, Except.map])
+                have := sim_call_instr ihCall (args := (splitArgs as).1 ++ [.kwargs m]) hok hs'.1.1.1 hs'.1.1.2 hw' hev
+                  (fun _ _ => ArgsRel.of_data hplA hncA (Or.inr ⟨hkwne, m, hbundle, rfl⟩))
+                  (by have := hAt.right.tail.head; simpa [hplen, Nat.add_assoc] using this)
+                  (p3.cast rfl (by simp))
+                exact this.cast (by simp [Nat.add_assoc]; try omega) rfl
+      | _ => simp [wfExpr] at hs
     | list items =>
-      have hsl : simpleList items = true := by simpa [simpleExpr] using hs
+      have hsl : wfList E.K.M E.P E.A items = true := by simpa [wfExpr] using hs
       have hrel : relExpr (.list items) base a =
           ((relList items base a).1 ++ [.buildList (some items.length)], (relList items base a).2) := by
         conv => lhs; unfold relExpr
@@ -714,13 +1329,13 @@ theorem sim_expr_step {n} (ihE : SimExpr n) (ihL : SimList n) (ihA : SimArgs n) 
       · simp at hev
       · rename_i vs hvs
         simp at hev; subst hev
-        have r1 := ihL items ctx heap stack vs hvs hsl C base a s hAt.left hoof hpc henv
-        refine r1.trans (Reach.one' (i := .buildList _) _ hAt.right.head (by vmeq) ?_)
+        have r1 := ihL E items vs hvs hsl base a s hAt.left hoof hpc hok
+        refine (r1.step (i := .buildList _) hAt.right.head (fun cls1 => ?_)).cast (by vmeq) rfl
         have hpop : popN items.length (vs.reverse ++ s.stack) = some (vs, s.stack) := by
           rw [← evalList_length items vs hvs]; exact popN_append vs s.stack
-        simp [MJ.Vm.step, hpop]; vmeq
+        simp [MJ.Vm.step, hpop]; omega
     | map kvs =>
-      have hsp : simplePairs kvs = true := by simpa [simpleExpr] using hs
+      have hsp : wfPairs E.K.M E.P E.A kvs = true := by simpa [wfExpr] using hs
       have hrel : relExpr (.map kvs) base a =
           ((relPairs kvs base a).1 ++ [.buildMap kvs.length], (relPairs kvs base a).2) := by
         conv => lhs; unfold relExpr
@@ -734,46 +1349,29 @@ theorem sim_expr_step {n} (ihE : SimExpr n) (ihL : SimList n) (ihA : SimArgs n) 
         · simp at hev
         · rename_i m hm
           simp at hev; subst hev
-          have r1 := ihP kvs ctx heap stack ps hps hsp C base a s hAt.left hoof hpc henv
-          refine r1.trans (Reach.one' (i := .buildMap _) _ hAt.right.head (by vmeq) ?_)
+          have r1 := ihP E kvs ps hps hsp base a s hAt.left hoof hpc hok
+          refine (r1.step (i := .buildMap _) hAt.right.head (fun cls1 => ?_)).cast (by vmeq) rfl
           have hpop : popN (2 * kvs.length) ((flat ps).reverse ++ s.stack) = some (flat ps, s.stack) := by
             rw [← evalPairs_length kvs ps hps, ← flat_length]; exact popN_append _ _
-          simp [MJ.Vm.step, hpop, buildMap, pairUp_flat, hm, Except.map]; vmeq
+          simp [MJ.Vm.step, hpop, buildMap, pairUp_flat, hm, Except.map]; omega
 
+/-- all expression-level simulations at level `n`, given the macro calls of the levels below -/
+def SimExprs (n : Nat) : Prop :=
+  SimExpr n ∧ SimList n ∧ SimArgs n ∧ SimPairs n ∧ SimChain n ∧ SimPosArgs n ∧ SimKwArgs n
 
-theorem sim_all : ∀ n, SimExpr n ∧ SimList n ∧ SimArgs n ∧ SimPairs n ∧ SimChain n := by
-  intro n
-  induction n with
-  | zero =>
-    refine ⟨?_, ?_, ?_, ?_, ?_⟩
-    · intro e ctx heap stack v h; simp [evalExpr] at h
-    · intro es ctx heap stack vs h; simp [evalList] at h
-    · intro args ctx heap stack as h; simp [evalArgs] at h
-    · intro kvs ctx heap stack ps h; simp [evalPairs] at h
-    · intro ops ctx heap stack a v h; simp [evalChain] at h
-  | succ n ih =>
-    obtain ⟨hE, hL, hA, hP, hC⟩ := ih
-    exact ⟨sim_expr_step hE hL hA hP hC, sim_list_step hE hL, sim_args_step hE hA, sim_pairs_step hE hP,
-      sim_chain_step hE hC⟩
+theorem sim_exprs_zero : SimExprs 0 := by
+  refine ⟨?_, ?_, ?_, ?_, ?_, ?_, ?_⟩
+  · intro E e v h; simp [evalExpr] at h
+  · intro E es vs h; simp [evalList] at h
+  · intro E args as h; simp [evalArgs] at h
+  · intro E kvs ps h; simp [evalPairs] at h
+  · intro E ops a v h; simp [evalChain] at h
+  · intro E args as h; simp [evalArgs] at h
+  · intro E args as h; simp [evalArgs] at h
 
-/-- **Expressions compile correctly** (relative code): if the reference semantics evaluates `e` to
-`v`, the VM executing the code of `e` (placed anywhere in a larger code `C`) pushes `v` and
-continues behind that code; frames and output are untouched. -/
-theorem relExpr_correct {n e ctx heap stack v} (hev : evalExpr n ctx heap stack e = .ok v)
-    (hs : simpleExpr e = true) {C base a s} (hAt : At C base (relExpr e base a).1)
-    (hoof : (relExpr e base a).2.oof = false) (hpc : s.pc = base) (henv : EnvRel ctx heap stack s.frames) :
-    Reach ctx C s { s with pc := base + (relExpr e base a).1.length, stack := v :: s.stack } :=
-  (sim_all n).1 e ctx heap stack v hev hs C base a s hAt hoof hpc henv
-
-/-- the same for the back-patching generator `cExpr` of `MJ.Compile` -/
-theorem compileExpr_correct {n e ctx heap stack v} (hev : evalExpr n ctx heap stack e = .ok v)
-    (hs : simpleExpr e = true) (g : CG) (post : List Instr) (hoof : (cExpr e g).oof = false)
-    {s : VmState} (hpc : s.pc = g.next) (henv : EnvRel ctx heap stack s.frames) :
-    Reach ctx ((cExpr e g).code ++ post) s { s with pc := (cExpr e g).next, stack := v :: s.stack } := by
-  rw [cExpr_eq_rel e g hs] at hoof ⊢
-  have hAt : At (g.code ++ (relExpr e g.next g.aux).1 ++ post) g.next (relExpr e g.next g.aux).1 :=
-    At.of_append g.code _ post
-  have := relExpr_correct hev hs hAt (by simpa [CG.oof, CG.extend] using hoof) hpc henv
-  simpa [CG.extend, CG.next] using this
+theorem sim_exprs_step {n} (ih : SimExprs n) (ihCall : SimCall n) : SimExprs (n + 1) := by
+  obtain ⟨hE, hL, hA, hP, hC, hPA, hKA⟩ := ih
+  exact ⟨sim_expr_step hE hL hA hP hC hPA hKA ihCall, sim_list_step hE hL, sim_args_step hE hA, sim_pairs_step hE hP,
+    sim_chain_step hE hC, sim_posArgs_step hE hPA, sim_kwArgs_step hE hKA⟩
 
 end MJ.Vm
